@@ -246,7 +246,7 @@ Definition fresh_entries (w : world) (st : state) (s : subj) (ref : nat) (dl : o
     /\ asked_by_soap w (p_entity p) = false.
 
 Definition loop_post (w : world) (st st' : state) (s : subj) (ref : nat) (dl : option Z) (l : list issuer) : Prop :=
-  db st' = db st /\ now st' = now st /\ heap st' = heap st /\ next_ref st' = next_ref st /\
+  db st' = db st /\ now st' = now st /\ (forall n', n' <> ref -> heap st' n' = heap st n') /\ next_ref st' = next_ref st /\
   exists news, pend st' = pend st ++ news /\ (next_rid st <= next_rid st')%nat
                /\ fresh_entries w st s ref dl l news
                /\ (forall r p, In (r, p) news -> (r < next_rid st')%nat)
@@ -254,7 +254,7 @@ Definition loop_post (w : world) (st st' : state) (s : subj) (ref : nat) (dl : o
 
 Lemma loop_post_refl w st s ref dl l : loop_post w st st s ref dl l.
 Proof.
-  unfold loop_post. do 4 (split; [reflexivity|]). exists []. rewrite app_nil_r.
+  unfold loop_post. do 2 (split; [reflexivity|]). split; [reflexivity|]. split; [reflexivity|]. exists []. rewrite app_nil_r.
   split; [reflexivity|]. split; [lia|]. split; [intros r p []|]. split; [intros r p []|constructor].
 Qed.
 
@@ -263,6 +263,17 @@ Proof.
   intros (A & B & C & D & news & E & F & G & K & ND). unfold loop_post. do 4 (split; [assumption|]).
   exists news. do 2 (split; [assumption|]). split; [|split; [exact K|exact ND]].
   intros r p Hr. destruct (G r p Hr) as (G1 & G2 & G3 & G4 & G5 & G6).
+  do 4 (split; [assumption|]). split; [right; exact G5|exact G6].
+Qed.
+
+Lemma loop_post_heap w st st' s ref dl e l x :
+  loop_post w (set_heap st ref x) st' s ref dl l -> loop_post w st st' s ref dl (e :: l).
+Proof.
+  intros (A & B & C & D & news & E & F & G & K & ND). cbn in A, B, D, E, F. unfold loop_post.
+  do 2 (split; [assumption|]). split.
+  { intros n' Hn. rewrite (C n' Hn). cbn. apply Nat.eqb_neq in Hn. rewrite Hn. reflexivity. }
+  split; [assumption|]. exists news. do 2 (split; [assumption|]). split; [|split; [exact K|exact ND]].
+  intros r p Hr. destruct (G r p Hr) as (G1 & G2 & G3 & G4 & G5 & G6). cbn in G1.
   do 4 (split; [assumption|]). split; [right; exact G5|exact G6].
 Qed.
 
@@ -298,12 +309,12 @@ Proof.
     destruct (c_get (now st) (db st) s e false) eqn:Gt.
     all: try (apply (Base _ H)).
     all: destruct b.
-    all: try (destruct (answer ans e); [apply loop_post_weaken, (IH _ _ _ _ _ H)|apply (Base _ H)
+    all: try (destruct (answer ans e); [eapply loop_post_heap, (IH _ _ _ _ _ H)|apply (Base _ H)
                                        |apply loop_post_weaken, (IH _ _ _ _ _ H)|apply loop_post_weaken, (IH _ _ _ _ _ H)]).
     all: apply loop_post_add; [apply (asked_front _ _ _ Ec); discriminate|apply (IH _ _ _ _ _ H)].
 Qed.
 
-(* a pass that does not raise: who has answered synchronously, and that nobody asked over SOAP is left without answer *)
+(* a pass that does not raise: who has answered synchronously, and who is left in not_done *)
 Definition lagging (w : world) (ans : list soap_answer) (e : issuer) : bool :=
   asked_by_soap w e && negb (soap_ok w ans e).
 
@@ -320,30 +331,103 @@ Proof.
   - intros [H|H]; [left; exact H|right; apply IH; exact H].
 Qed.
 
+Lemma remove_first_subset0 a i l : In a (remove_first i l) -> In a l.
+Proof.
+  induction l as [|x r IH]; cbn; [contradiction|]. destruct (x =? i)%nat.
+  - intros H; right; exact H.
+  - intros [H|H]; [left; exact H|right; apply IH; exact H].
+Qed.
+
+Lemma NoDup_remove_first0 i l : NoDup l -> NoDup (remove_first i l) /\ ~ In i (remove_first i l).
+Proof.
+  induction l as [|x r IH]; cbn; intros N; [split; [constructor|intros []]|]. inversion N as [|? ? Nx Nr]; subst.
+  destruct (x =? i)%nat eqn:E.
+  - apply Nat.eqb_eq in E. subst. split; assumption.
+  - apply Nat.eqb_neq in E. destruct (IH Nr) as [A B]. split.
+    + constructor; [intros H; apply Nx; eapply remove_first_subset0; exact H|exact A].
+    + intros [H|H]; [congruence|exact (B H)].
+Qed.
+
 Lemma logout_loop_ok w ans s ref dl l : forall st nd acc st' nd' acc',
   logout_loop w ans s ref dl l st nd acc = (st', inr (nd', acc')) ->
   soap_answered acc' = soap_answered acc ++ filter (soap_ok w ans) l
-  /\ forall e, lagging w ans e = true -> In e nd -> In e nd'.
+  /\ (NoDup nd -> forall x, In x nd' -> In x nd /\ (In x l -> lagging w ans x = true)).
 Proof.
   induction l as [|e l' IH]; intros st nd acc st' nd' acc' H; cbn in H.
-  - injection H as <- <- <-. cbn. rewrite app_nil_r. split; [reflexivity|auto].
+  - injection H as <- <- <-. cbn. rewrite app_nil_r. split; [reflexivity|]. intros _ x Hx. split; [exact Hx|intros []].
   - destruct (choose w e) as [b|] eqn:Ec; [|discriminate].
     destruct (c_get (now st) (db st) s e false) eqn:Gt; try discriminate.
     all: destruct b.
     all: try (assert (Fr : asked_by_soap w e = false) by (apply (asked_front _ _ _ Ec); discriminate);
               apply IH in H as [H1 H2]; rewrite soap_answered_app in H1; cbn in H1; rewrite app_nil_r in H1;
               cbn [filter]; rewrite (soap_ok_front w ans e Fr); split; [exact H1|];
-              intros x Lx Hx; apply H2; [exact Lx|]; apply In_remove_first0; [|exact Hx];
-              intros ->; unfold lagging in Lx; rewrite Fr in Lx; discriminate).
+              intros Nd x Hx; destruct (NoDup_remove_first0 e nd Nd) as [Nd2 Ne];
+              destruct (H2 Nd2 x Hx) as [Hx1 Hx2]; split; [eapply remove_first_subset0; exact Hx1|];
+              intros [->|Hl]; [contradiction|exact (Hx2 Hl)]).
     all: assert (So : asked_by_soap w e = true) by (unfold asked_by_soap; rewrite Ec; reflexivity).
     all: destruct (answer ans e) eqn:Ea; try discriminate.
     all: try (assert (Se : soap_ok w ans e = false) by (unfold soap_ok; rewrite So, Ea; reflexivity);
-              apply IH in H as [H1 H2]; cbn [filter]; rewrite Se; split; [exact H1|exact H2]).
+              apply IH in H as [H1 H2]; cbn [filter]; rewrite Se; split; [exact H1|];
+              intros Nd x Hx; destruct (H2 Nd x Hx) as [Hx1 Hx2]; split; [exact Hx1|];
+              intros [<-|Hl]; [unfold lagging; rewrite So, Se; reflexivity|exact (Hx2 Hl)]).
     all: assert (Se : soap_ok w ans e = true) by (unfold soap_ok; rewrite So, Ea; reflexivity).
     all: apply IH in H as [H1 H2]; rewrite soap_answered_app in H1; cbn in H1; cbn [filter]; rewrite Se.
     all: split; [rewrite H1, <- app_assoc; reflexivity|].
-    all: intros x Lx Hx; apply H2; [exact Lx|]; apply In_remove_first0; [|exact Hx].
-    all: intros ->; unfold lagging in Lx; rewrite Se in Lx; rewrite andb_false_r in Lx; discriminate.
+    all: intros Nd x Hx; destruct (NoDup_remove_first0 e nd Nd) as [Nd2 Ne].
+    all: destruct (H2 Nd2 x Hx) as [Hx1 Hx2]; split; [eapply remove_first_subset0; exact Hx1|].
+    all: intros [->|Hl]; [contradiction|exact (Hx2 Hl)].
+Qed.
+
+(* where the pass stops, in the model's terms *)
+Definition mstop (w : world) (nw : Z) (c : cache) (s : subj) (ans : list soap_answer) (e : issuer) : bool :=
+  match choose w e with
+  | None => true
+  | Some b => match c_get nw c s e false with G_none => true | _ => false end
+              || match b with SOAP => match answer ans e with SA_fail => true | _ => false end | _ => false end
+  end.
+
+Lemma logout_loop_inl w ans s ref dl l : forall st nd acc st' x,
+  logout_loop w ans s ref dl l st nd acc = (st', inl x) -> exists e, In e l /\ mstop w (now st) (db st) s ans e = true.
+Proof.
+  induction l as [|e l' IH]; intros st nd acc st' x H; cbn in H; [discriminate|].
+  assert (Rec : forall st2 nd2 acc2, now st2 = now st -> db st2 = db st ->
+                  logout_loop w ans s ref dl l' st2 nd2 acc2 = (st', inl x) ->
+                  exists e0, In e0 (e :: l') /\ mstop w (now st) (db st) s ans e0 = true).
+  { intros st2 nd2 acc2 En Ed H2. destruct (IH _ _ _ _ _ H2) as [e0 [A B]]. rewrite En, Ed in B. exists e0. split; [right; exact A|exact B]. }
+  assert (Here : mstop w (now st) (db st) s ans e = true -> exists e0, In e0 (e :: l') /\ mstop w (now st) (db st) s ans e0 = true).
+  { intros X. exists e. split; [left; reflexivity|exact X]. }
+  unfold mstop in Here. destruct (choose w e) as [b|] eqn:Ec; [|apply Here; reflexivity].
+  destruct (c_get (now st) (db st) s e false) eqn:Gt; try (apply Here; reflexivity).
+  all: destruct b; try (eapply Rec; [| |exact H]; reflexivity).
+  all: destruct (answer ans e) eqn:Ea; try (apply Here; reflexivity); try (eapply Rec; [| |exact H]; reflexivity).
+Qed.
+
+Lemma logout_loop_heap w ans s ref dl l : forall st nd acc st' res,
+  logout_loop w ans s ref dl l st nd acc = (st', res) ->
+  heap st' ref = remove_all (filter (soap_ok w ans) (reached (mstop w (now st) (db st) s ans) l)) (heap st ref).
+Proof.
+  induction l as [|e l' IH]; intros st nd acc st' res H; cbn in H.
+  - injection H as <- _. reflexivity.
+  - cbn [reached]. unfold mstop at 1. destruct (choose w e) as [b|] eqn:Ec.
+    2:{ injection H as <- _. reflexivity. }
+    destruct (c_get (now st) (db st) s e false) eqn:Gt.
+    2:{ injection H as <- _. reflexivity. }
+    all: cbn [orb]; destruct b.
+    all: try (assert (Fr : asked_by_soap w e = false) by (apply (asked_front _ _ _ Ec); discriminate);
+              cbn [filter]; rewrite (soap_ok_front w ans e Fr); apply IH in H; cbn in H; exact H).
+    all: assert (So : asked_by_soap w e = true) by (unfold asked_by_soap; rewrite Ec; reflexivity).
+    all: destruct (answer ans e) eqn:Ea.
+    all: try (injection H as <- _; reflexivity).
+    all: try (assert (Se : soap_ok w ans e = false) by (unfold soap_ok; rewrite So, Ea; reflexivity);
+              cbn [filter]; rewrite Se; apply IH in H; exact H).
+    all: assert (Se : soap_ok w ans e = true) by (unfold soap_ok; rewrite So, Ea; reflexivity).
+    all: cbn [filter]; rewrite Se; apply IH in H; cbn in H; rewrite Nat.eqb_refl in H; exact H.
+Qed.
+
+Lemma filter_all {A} (f : A -> bool) l : (forall x, In x l -> f x = true) -> filter f l = l.
+Proof.
+  induction l as [|x r IH]; cbn; intros H; [reflexivity|].
+  rewrite (H x (or_introl eq_refl)), IH; [reflexivity|]. intros y Hy. apply H. right; exact Hy.
 Qed.
 
 Lemma remove_all_cons_notin es : forall x r, ~ In x es -> remove_all es (x :: r) = x :: remove_all es r.
@@ -353,39 +437,56 @@ Proof.
   apply IH. intros H; apply N; right; exact H.
 Qed.
 
-Lemma remove_all_filter (f : issuer -> bool) l :
-  NoDup l -> remove_all (filter f l) l = filter (fun e => negb (f e)) l.
+Lemma reached_subset stop l x : In x (reached stop l) -> In x l.
 Proof.
-  induction l as [|x r IH]; intros N; [reflexivity|]. inversion N as [|? ? Nx Nr]; subst. cbn [filter].
-  destruct (f x) eqn:F; cbn [negb].
-  - unfold remove_all. cbn. rewrite Nat.eqb_refl. apply IH; exact Nr.
-  - rewrite remove_all_cons_notin; [rewrite IH by exact Nr; reflexivity|].
-    intros H. apply filter_In in H as [H _]. exact (Nx H).
+  induction l as [|y r IH]; cbn; [contradiction|]. destruct (stop y); [contradiction|].
+  intros [H|H]; [left; exact H|right; apply IH; exact H].
+Qed.
+
+Lemma reached_ext stop1 stop2 l : (forall e, In e l -> stop1 e = stop2 e) -> reached stop1 l = reached stop2 l.
+Proof.
+  induction l as [|y r IH]; cbn; intros H; [reflexivity|]. rewrite (H y (or_introl eq_refl)).
+  destruct (stop2 y); [reflexivity|]. rewrite IH; [reflexivity|]. intros e He. apply H. right; exact He.
+Qed.
+
+Lemma mem_In0 k l : mem k l = true <-> In k l.
+Proof.
+  induction l as [|x r IH]; cbn; [split; [discriminate|contradiction]|].
+  rewrite orb_true_iff, IH, Nat.eqb_eq. tauto.
+Qed.
+
+Lemma remove_all_reached (f stop : issuer -> bool) l :
+  NoDup l ->
+  remove_all (filter f (reached stop l)) l = filter (fun e => negb (f e && mem e (reached stop l))) l.
+Proof.
+  induction l as [|x r IH]; intros N; [reflexivity|]. inversion N as [|? ? Nx Nr]; subst. cbn [reached].
+  destruct (stop x).
+  - change (remove_all (filter f []) (x :: r)) with (x :: r). symmetry. apply filter_all. intros e _. cbn. rewrite andb_false_r. reflexivity.
+  - assert (Ext : filter (fun e => negb (f e && ((x =? e)%nat || mem e (reached stop r)))) r
+                  = filter (fun e => negb (f e && mem e (reached stop r))) r).
+    { apply filter_ext_in. intros e He. destruct (x =? e)%nat eqn:E; [|reflexivity].
+      apply Nat.eqb_eq in E. subst. contradiction. }
+    cbn [filter]. cbn [mem]. rewrite Nat.eqb_refl. cbn [orb]. rewrite andb_true_r. destruct (f x) eqn:F; cbn [negb].
+    + unfold remove_all. cbn [fold_left remove_first]. rewrite Nat.eqb_refl. fold (remove_all (filter f (reached stop r)) r).
+      rewrite (IH Nr). symmetry. exact Ext.
+    + rewrite remove_all_cons_notin.
+      * rewrite (IH Nr), Ext. reflexivity.
+      * intros H. apply filter_In in H as [H _]. apply reached_subset in H. exact (Nx H).
 Qed.
 
 Lemma finish_pass_cases s ref acc st st' ou :
   finish_pass s ref acc st = (st', ou) ->
-  let l' := remove_all (soap_answered acc) (heap st ref) in
-  now st' = now st /\ next_rid st' = next_rid st /\ next_ref st' = next_ref st /\
-  (forall n', heap st' n' = if (n' =? ref)%nat then l' else heap st n') /\
-  ( ((soap_answered acc = [] \/ l' <> []) /\ db st' = db st /\ pend st' = pend st /\ ou = OSent acc)
-    \/ (l' = [] /\ lookup s (db st) <> None /\ db st' = remove s (db st) /\ pend st' = purge s (pend st) /\ ou = OSent acc)
-    \/ (l' = [] /\ lookup s (db st) = None /\ db st' = db st /\ pend st' = pend st /\ ou = OExn KeyErr)).
+  ((soap_answered acc = [] \/ heap st ref <> []) /\ st' = st /\ ou = OSent acc)
+  \/ (soap_answered acc <> [] /\ heap st ref = [] /\ local_logout st s = Some st' /\ ou = OSent acc)
+  \/ (soap_answered acc <> [] /\ heap st ref = [] /\ lookup s (db st) = None /\ st' = st /\ ou = OExn KeyErr).
 Proof.
   unfold finish_pass. destruct (soap_answered acc) as [|a0 an] eqn:Ea.
-  - intros H; injection H as <- <-. cbn. do 3 (split; [reflexivity|]). split.
-    + intros n'. destruct (n' =? ref)%nat eqn:E; [apply Nat.eqb_eq in E; subst; reflexivity|reflexivity].
-    + left. split; [left; reflexivity|]. repeat split.
-  - cbn [set_heap heap]. rewrite Nat.eqb_refl. set (l' := remove_all (a0 :: an) (heap st ref)).
-    destruct l' as [|y l2] eqn:El.
-    + destruct (local_logout _ s) as [st3|] eqn:L.
-      * intros H; injection H as <- <-. apply local_logout_some in L as (A1 & A2 & A3 & A4 & A5 & A6 & A7).
-        cbn in A1, A2, A3, A4, A5, A6, A7. do 3 (split; [assumption|]). split; [intros n'; rewrite A5; reflexivity|].
-        right; left. repeat split; assumption.
-      * intros H; injection H as <- <-. apply local_logout_none in L. cbn in L. cbn. do 3 (split; [reflexivity|]).
-        split; [reflexivity|]. right; right. repeat split; assumption.
-    + intros H; injection H as <- <-. cbn. do 3 (split; [reflexivity|]). split; [reflexivity|].
-      left. split; [right; discriminate|]. repeat split.
+  - intros H; injection H as <- <-. left. split; [left; reflexivity|split; reflexivity].
+  - destruct (heap st ref) as [|y l2] eqn:El.
+    + destruct (local_logout st s) as [st3|] eqn:L.
+      * intros H; injection H as <- <-. right; left. split; [discriminate|]. split; [reflexivity|]. split; reflexivity.
+      * intros H; injection H as <- <-. right; right. apply local_logout_none in L. split; [discriminate|]. split; [reflexivity|]. split; [exact L|split; reflexivity].
+    + intros H; injection H as <- <-. left. split; [right; discriminate|split; reflexivity].
 Qed.
 
 Lemma do_logout_cases w ans s ref dl st st' ou :
@@ -406,52 +507,71 @@ Proof.
     apply logout_loop_frame in L. destruct L as (A & B & _).
     destruct res as [e|[[|x nd] acc]].
     + injection H as <- <-. split; [exact B|]. split; [left; exact A|split; discriminate].
-    + apply finish_pass_cases in H as (F1 & _ & _ & _ & [(_ & F2 & _ & ->)|[(_ & F2 & F3 & _ & ->)|(_ & _ & F2 & _ & ->)]]).
-      * split; [congruence|]. split; [left; congruence|split; discriminate].
-      * split; [congruence|]. split; [right; rewrite <- A; split; assumption|split; discriminate].
-      * split; [congruence|]. split; [left; congruence|split; discriminate].
+    + apply finish_pass_cases in H as [(_ & -> & ->)|[(_ & _ & Lg & ->)|(_ & _ & _ & -> & ->)]].
+      * split; [exact B|]. split; [left; exact A|split; discriminate].
+      * apply local_logout_some in Lg as (L1 & L2 & L3 & _). split; [congruence|].
+        split; [right; rewrite <- A; split; assumption|split; discriminate].
+      * split; [exact B|]. split; [left; exact A|split; discriminate].
     + injection H as <- <-. split; [exact B|]. split; [left; exact A|split; discriminate].
 Qed.
 
-(* the pass in detail, for a list object without duplicates *)
+(* the pass in detail, for a non-empty list object without duplicates: afterwards the list object holds
+   exactly the IdPs that were not reached-and-answered-Success-over-SOAP *)
+Definition mpass_wait (w : world) (st : state) (s : subj) (ans : list soap_answer) (l : list issuer) : list issuer :=
+  filter (fun e => negb (soap_ok w ans e && mem e (reached (mstop w (now st) (db st) s ans) l))) l.
+
 Lemma do_logout_pass w ans s ref dl st st' ou :
-  do_logout w ans s ref dl st = (st', ou) -> deadline_passed (now st) dl = false -> NoDup (heap st ref) ->
-  exists st1, loop_post w st st1 s ref dl (heap st ref) /\
-    ( (st' = st1 /\ is_exn ou = true)
-      \/ (let l' := filter (fun e => negb (soap_ok w ans e)) (heap st ref) in
-          now st' = now st /\ next_rid st' = next_rid st1 /\ next_ref st' = next_ref st /\
-          (forall n', heap st' n' = if (n' =? ref)%nat then l' else heap st n') /\
-          ( ((existsb (soap_ok w ans) (heap st ref) = false \/ l' <> []) /\ db st' = db st /\ pend st' = pend st1 /\ is_exn ou = false)
-            \/ (l' = [] /\ lookup s (db st) <> None /\ db st' = remove s (db st) /\ pend st' = purge s (pend st1) /\ is_exn ou = false)
-            \/ (l' = [] /\ lookup s (db st) = None)))).
+  do_logout w ans s ref dl st = (st', ou) -> deadline_passed (now st) dl = false ->
+  NoDup (heap st ref) -> heap st ref <> [] ->
+  let pw := mpass_wait w st s ans (heap st ref) in
+  exists st1, loop_post w st st1 s ref dl (heap st ref) /\ heap st1 ref = pw /\
+    ( (st' = st1 /\ pw <> [])
+      \/ (pw = [] /\ is_exn ou = false /\ local_logout st1 s = Some st')
+      \/ (pw = [] /\ lookup s (db st) = None)).
 Proof.
-  unfold do_logout. intros H D N. rewrite D in H.
+  unfold do_logout. intros H D N NE. rewrite D in H. cbv zeta.
   destruct (logout_loop w ans s ref dl (heap st ref) st (heap st ref) []) as [st1 res] eqn:L.
-  pose proof (logout_loop_frame _ _ _ _ _ _ _ _ _ _ _ L) as P. exists st1. split; [exact P|].
+  pose proof (logout_loop_frame _ _ _ _ _ _ _ _ _ _ _ L) as P.
+  pose proof (logout_loop_heap _ _ _ _ _ _ _ _ _ _ _ L) as Hh. rewrite (remove_all_reached _ _ _ N) in Hh.
+  fold (mpass_wait w st s ans (heap st ref)) in Hh.
+  exists st1. split; [exact P|]. split; [exact Hh|].
   destruct P as (A & B & C & D' & _).
   destruct res as [e|[[|x nd] acc]].
-  - injection H as <- <-. left. split; reflexivity.
-  - right. apply logout_loop_ok in L as [L1 _]. cbn [soap_answered flat_map app] in L1.
-    apply finish_pass_cases in H as (F1 & F2 & F3 & F4 & F5). cbv zeta in F4, F5.
-    rewrite L1, C, (remove_all_filter _ _ N) in F4, F5. cbv zeta.
-    split; [congruence|]. split; [exact F2|]. split; [congruence|]. split; [exact F4|].
-    destruct F5 as [([Fa|Fa] & Fb & Fc & ->)|[(Fa & Fb & Fc & Fd & ->)|(Fa & Fb & _)]].
-    + left. split; [left|repeat split; congruence].
-      destruct (existsb (soap_ok w ans) (heap st ref)) eqn:Ex; [|reflexivity].
-      apply existsb_exists in Ex as [y [Hy Sy]].
-      assert (In y (filter (soap_ok w ans) (heap st ref))) by (apply filter_In; split; assumption).
-      rewrite Fa in H. destruct H.
-    + left. split; [right; exact Fa|repeat split; congruence].
-    + right; left. rewrite A in Fb, Fc. repeat split; assumption.
-    + right; right. rewrite A in Fb. split; assumption.
-  - injection H as <- <-. left. split; reflexivity.
+  - injection H as <- <-. left. split; [reflexivity|].
+    apply logout_loop_inl in L as [e0 [He0 Se0]]. intros X.
+    assert (In e0 (mpass_wait w st s ans (heap st ref))).
+    { apply filter_In. split; [exact He0|].
+      assert (M : mem e0 (reached (mstop w (now st) (db st) s ans) (heap st ref)) = false).
+      { destruct (mem e0 _) eqn:M; [|reflexivity]. exfalso. apply mem_In0 in M. clear -M Se0 N.
+        induction (heap st ref) as [|y r IH]; cbn in M; [contradiction|].
+        destruct (mstop w (now st) (db st) s ans y) eqn:Sy; [contradiction|].
+        inversion N; subst. destruct M as [->|M]; [congruence|]. apply IH; assumption. }
+      rewrite M, andb_false_r. reflexivity. }
+    rewrite X in H. destruct H.
+  - apply logout_loop_ok in L as [L1 _]. cbn [soap_answered flat_map app] in L1.
+    apply finish_pass_cases in H as [(Fa & -> & ->)|[(Fa & Fb & Lg & ->)|(Fa & Fb & Fc & -> & ->)]].
+    + left. split; [reflexivity|]. rewrite <- Hh. destruct Fa as [Fa|Fa]; [|exact Fa].
+      rewrite Hh. intros X. rewrite L1 in Fa.
+      assert (Hall : mpass_wait w st s ans (heap st ref) = heap st ref).
+      { apply filter_all. intros y Hy. destruct (soap_ok w ans y) eqn:Sy; [|reflexivity].
+        assert (In y (filter (soap_ok w ans) (heap st ref))) by (apply filter_In; split; assumption).
+        rewrite Fa in H. destruct H. }
+      rewrite Hall in X. exact (NE X).
+    + right; left. rewrite <- Hh. split; [exact Fb|]. split; [reflexivity|exact Lg].
+    + right; right. rewrite <- Hh. split; [exact Fb|]. rewrite <- A. exact Fc.
+  - injection H as <- <-. left. split; [reflexivity|].
+    apply logout_loop_ok in L as [_ L2]. destruct (L2 N x (or_introl eq_refl)) as [Hx Lx]. specialize (Lx Hx).
+    intros X. assert (In x (mpass_wait w st s ans (heap st ref))).
+    { apply filter_In. split; [exact Hx|]. unfold lagging in Lx. apply andb_true_iff in Lx as [_ Lx].
+      apply negb_true_iff in Lx. rewrite Lx. reflexivity. }
+    rewrite X in H. destruct H.
 Qed.
 
 (* ================================================================ the cache invariant *)
 Definition KInv (st : state) (g : ghost) : Prop :=
   g_now g = now st /\
-  forall s i l e t, lookup s (db st) = Some l -> lookup i l = Some e -> e_info e = Some t ->
-    g_know g s i = Some (e_nooa e, t).
+  forall s i l e, lookup s (db st) = Some l -> lookup i l = Some e ->
+    g_know g s i = option_map (pair (e_nooa e)) (e_info e).
 
 Lemma ghost_step_know w g vb o ou va :
   g_know (ghost_step w g vb o ou va) = know_after g o ou va /\ g_now (ghost_step w g vb o ou va) = now_after g o.
@@ -462,7 +582,7 @@ Proof.
 Qed.
 
 Lemma KInv_init t0 : KInv (init t0) (ghost0 t0).
-Proof. split; [reflexivity|]. intros s i l e t H. discriminate. Qed.
+Proof. split; [reflexivity|]. intros s i l e H. discriminate. Qed.
 
 (* how a step changes the cache *)
 Inductive db_change (c c' : cache) : Prop :=
@@ -521,7 +641,7 @@ Lemma KInv_db_change st st' g k :
   KInv st' {| g_now := g_now g; g_know := fun s i => if present (view_of st') s then g_know g s i else None;
               g_txn := k; g_owner := g_owner g; g_moot := g_moot g; g_ntxn := g_ntxn g |} .
 Proof.
-  intros [N K] C T. split; [cbn; congruence|]. cbn [g_know]. intros s i l e t Hs Hi Ht.
+  intros [N K] C T. split; [cbn; congruence|]. cbn [g_know]. intros s i l e Hs Hi.
   assert (P : present (view_of st') s = true) by (apply present_view; congruence). rewrite P.
   destruct C as [C|s0 _ C]; rewrite C in Hs.
   - eapply K; eassumption.
@@ -537,13 +657,13 @@ Lemma KInv_store st g k s i nooa ot :
                                  then know_set (g_know g) s i (option_map (pair nooa) ot) s' i' else None;
           g_txn := k; g_owner := g_owner g; g_moot := g_moot g; g_ntxn := g_ntxn g |}.
 Proof.
-  intros [N K]. split; [exact N|]. cbn [g_know]. intros s' i' l e t Hs Hi Ht.
+  intros [N K]. split; [exact N|]. cbn [g_know]. intros s' i' l e Hs Hi.
   assert (P : present (view_of (store st s i nooa ot)) s' = true) by (apply present_view; congruence). rewrite P.
   cbn [store set_db db] in Hs. unfold c_set, know_set in *.
   destruct (Nat.eq_dec s' s) as [->|Ns].
   - rewrite lookup_update_eq in Hs. injection Hs as <-. rewrite Nat.eqb_refl. cbn [andb].
     destruct (Nat.eq_dec i' i) as [->|Ni].
-    + rewrite lookup_update_eq in Hi. injection Hi as <-. cbn in Ht. subst ot. rewrite Nat.eqb_refl. reflexivity.
+    + rewrite lookup_update_eq in Hi. injection Hi as <-. rewrite Nat.eqb_refl. reflexivity.
     + rewrite lookup_update_neq in Hi by exact Ni.
       destruct (i' =? i)%nat eqn:E; [apply Nat.eqb_eq in E; congruence|].
       destruct (lookup s (db st)) as [l0|] eqn:L0; [|discriminate]. eapply K; eassumption.
@@ -580,7 +700,7 @@ Proof.
   - injection H as <- <-. apply Gen; try reflexivity. apply dbc_same; reflexivity.
   - (* Tick *) injection H as <- <-. destruct I as [N K]. split.
     + rewrite En. cbn. congruence.
-    + intros s i l e t Hs Hi Ht. rewrite Ek. unfold know_after.
+    + intros s i l e Hs Hi. rewrite Ek. unfold know_after.
       assert (P : present (view_of {| now := now st + dt; db := db st; pend := pend st; heap := heap st;
                                       next_rid := next_rid st; next_ref := next_ref st |}) s = true)
         by (apply present_view; cbn in *; congruence).
@@ -617,7 +737,7 @@ Proof.
   destruct (identity_toks _ _ _ _ _ _ _ t G (or_introl eq_refl)) as [e [He Hg]].
   apply c_get_info in Hg as (l & en & Hl1 & Hl2 & Hl3 & Hl4).
   exists t, e, (e_nooa en). rewrite issuers_view. rewrite Hl1 in *. split; [exact He|].
-  split; [eapply K; eassumption|]. intros _. rewrite N. apply Hl4; reflexivity.
+  split; [rewrite (K _ _ _ _ Hl1 Hl2), Hl3; reflexivity|]. intros _. rewrite N. apply Hl4; reflexivity.
 Qed.
 
 Lemma cache_clause w st g o st' ou timed :
@@ -631,12 +751,12 @@ Proof.
       apply c_get_info in Hg as (l & en & Hl1 & Hl2 & Hl3 & Hl4).
       exists e, (e_nooa en). split.
       * unfold cands_of. rewrite issuers_view. exact He.
-      * split; [eapply K; eassumption|]. intros T. apply andb_true_iff in T as [_ ->]. rewrite N. apply Hl4; reflexivity.
+      * split; [rewrite (K _ _ _ _ Hl1 Hl2), Hl3; reflexivity|]. intros T. apply andb_true_iff in T as [_ ->]. rewrite N. apply Hl4; reflexivity.
     + (* GetInfoFrom *) injection H as <- <-.
       destruct (c_get (now st) (db st) s i chk) eqn:G; try exact I.
       apply c_get_info in G as (l & en & Hl1 & Hl2 & Hl3 & Hl4).
       exists i, (e_nooa en). split; [left; reflexivity|].
-      split; [eapply K; eassumption|]. intros T. apply andb_true_iff in T as [_ ->]. rewrite N. apply Hl4; reflexivity.
+      split; [rewrite (K _ _ _ _ Hl1 Hl2), Hl3; reflexivity|]. intros T. apply andb_true_iff in T as [_ ->]. rewrite N. apply Hl4; reflexivity.
   - pose proof (KInv_step _ _ _ _ _ _ I H) as I'.
     destruct (ghost_step_know w g (view_of st) o ou (view_of st')) as [Ek En].
     intros s Hs. destruct (logged_clause _ _ timed I' s Hs) as [t R]. exists t. rewrite <- Ek, <- En. exact R.
@@ -794,12 +914,6 @@ Proof.
   rewrite andb_true_iff, Nat.eqb_eq, IH. split; [intros [-> ->]; reflexivity|intros H; injection H; auto].
 Qed.
 
-Lemma filter_all {A} (f : A -> bool) l : (forall x, In x l -> f x = true) -> filter f l = l.
-Proof.
-  induction l as [|x r IH]; cbn; intros H; [reflexivity|].
-  rewrite (H x (or_introl eq_refl)), IH; [reflexivity|]. intros y Hy. apply H. right; exact Hy.
-Qed.
-
 Lemma wait_minus_remove_first i l : NoDup l -> wait_minus i l = remove_first i l.
 Proof.
   unfold wait_minus. induction l as [|x r IH]; cbn; intros N; [reflexivity|].
@@ -812,20 +926,6 @@ Qed.
 Lemma filter_andb {A} (p q : A -> bool) l : filter (fun x => p x && q x) l = filter q (filter p l).
 Proof.
   induction l as [|x r IH]; cbn; [reflexivity|]. destruct (p x); cbn; [destruct (q x); rewrite IH; reflexivity|exact IH].
-Qed.
-
-Lemma wait_answer_filter w ans i l :
-  NoDup l -> wait_answer w ans i l = filter (fun e => negb (soap_ok w ans e)) (remove_first i l).
-Proof.
-  intros N. unfold wait_answer. rewrite (filter_andb (fun j => negb (j =? i)%nat) (fun j => negb (soap_ok w ans j))).
-  fold (wait_minus i l). rewrite (wait_minus_remove_first i l N). reflexivity.
-Qed.
-
-Lemma filter_not_soap_all w ans l :
-  existsb (soap_ok w ans) l = false -> filter (fun e => negb (soap_ok w ans e)) l = l.
-Proof.
-  intros H. apply filter_all. intros x Hx. destruct (soap_ok w ans x) eqn:E; [|reflexivity].
-  assert (existsb (soap_ok w ans) l = true) by (apply existsb_exists; exists x; split; assumption). congruence.
 Qed.
 
 Lemma NoDup_filter {A} (f : A -> bool) l : NoDup l -> NoDup (filter f l).
@@ -902,15 +1002,39 @@ Qed.
 (* ================================================================ the bookkeeping invariant *)
 Definition db_wf (c : cache) : Prop := forall s l, lookup s c = Some l -> NoDup (keys l) /\ keys l <> [].
 
-(* L_pend is the direction that the fixes de5f1fed / 73294247 make true: every request the client still
-   keeps belongs to a logout IN PROGRESS and is either open for its addressee or moot (the addressee has
-   answered through another request of the same logout). *)
+(* a subject that keeps its session keeps every issuer it has *)
+Definition db_keeps (c c' : cache) : Prop :=
+  forall s l, lookup s c = Some l -> lookup s c' <> None ->
+    exists l', lookup s c' = Some l' /\ forall e, lookup e l <> None -> lookup e l' <> None.
+
+Lemma db_keeps_same c c' : c' = c -> db_keeps c c'.
+Proof. intros -> s l H _. exists l. split; [exact H|auto]. Qed.
+
+Lemma db_keeps_remove s0 c : db_keeps c (remove s0 c).
+Proof.
+  intros s l H P. destruct (Nat.eq_dec s s0) as [->|Ne]; [rewrite lookup_remove_eq in P; congruence|].
+  exists l. rewrite lookup_remove_neq by exact Ne. split; [exact H|auto].
+Qed.
+
+Lemma db_keeps_set s0 i e c : db_keeps c (c_set s0 i e c).
+Proof.
+  intros s l H _. unfold c_set. destruct (Nat.eq_dec s s0) as [->|Ne].
+  - rewrite lookup_update_eq, H. eexists. split; [reflexivity|]. intros e0 He0.
+    destruct (Nat.eq_dec e0 i) as [->|Ni]; [rewrite lookup_update_eq; discriminate|].
+    rewrite lookup_update_neq by exact Ni. exact He0.
+  - exists l. rewrite lookup_update_neq by exact Ne. split; [exact H|auto].
+Qed.
+
+(* L_txn: the shared entity_ids list object of a logout in progress IS the monitor's list of IdPs still to
+   answer, and the subject still has its session with (at least) those issuers.
+   L_own : the monitor's open requests are pending, addressed to a front-channel IdP still waited for.
+   L_pend: every request the client keeps is such an open request (after de5f1fed, 73294247, e58d2614). *)
 Record LInv (w : world) (st : state) (g : ghost) : Prop := {
   L_now : g_now g = now st;
   L_ntxn : g_ntxn g = next_ref st;
   L_txn : forall n T, g_txn g n = Some T ->
-            (n < next_ref st)%nat /\ heap st n = t_wait T /\ lookup (t_subj T) (db st) <> None
-            /\ NoDup (t_wait T);
+            (n < next_ref st)%nat /\ heap st n = t_wait T /\ NoDup (t_wait T)
+            /\ exists l, lookup (t_subj T) (db st) = Some l /\ forall e, In e (t_wait T) -> lookup e l <> None;
   L_own : forall r n a T, g_owner g r = Some (n, a) -> g_txn g n = Some T ->
             lookup r (pend st) = Some {| p_entity := a; p_ref := n; p_subj := t_subj T; p_expire := t_deadline T |}
             /\ In a (t_wait T) /\ asked_by_soap w a = false;
@@ -919,13 +1043,14 @@ Record LInv (w : world) (st : state) (g : ghost) : Prop := {
   L_db : db_wf (db st);
   L_nodup : NoDup (keys (pend st));
   L_pend : forall r p, lookup r (pend st) = Some p ->
-             exists T, g_txn g (p_ref p) = Some T /\ t_subj T = p_subj p /\
-               (g_owner g r = Some (p_ref p, p_entity p)
-                \/ (g_owner g r = None /\ g_moot g r = Some (p_ref p, p_entity p)))
+             exists T, g_txn g (p_ref p) = Some T /\ t_subj T = p_subj p /\ g_owner g r = Some (p_ref p, p_entity p)
 }.
 
 Lemma LInv_init w t0 : LInv w (init t0) (ghost0 t0).
 Proof. constructor; cbn; try reflexivity; try discriminate. constructor. Qed.
+
+Lemma L_txn_present w st g n T : LInv w st g -> g_txn g n = Some T -> lookup (t_subj T) (db st) <> None.
+Proof. intros I H. destruct (L_txn _ _ _ I n T H) as (_ & _ & _ & l & Hl & _). congruence. Qed.
 
 Lemma close_txn_some va tx n T :
   close_txn va tx n = Some T <-> tx n = Some T /\ present va (t_subj T) = true.
@@ -950,9 +1075,18 @@ Proof.
   - rewrite lookup_update_neq in H by exact Ne. exact (W s' l H).
 Qed.
 
+Lemma txn_kept (st st' : state) (T : txn) :
+  db_keeps (db st) (db st') -> present (view_of st') (t_subj T) = true ->
+  (exists l, lookup (t_subj T) (db st) = Some l /\ forall e, In e (t_wait T) -> lookup e l <> None) ->
+  exists l, lookup (t_subj T) (db st') = Some l /\ forall e, In e (t_wait T) -> lookup e l <> None.
+Proof.
+  intros Dk P (l & Hl & He). apply present_view in P. destruct (Dk _ l Hl P) as (l' & Hl' & Hk).
+  exists l'. split; [exact Hl'|]. intros e Hin. apply Hk, He, Hin.
+Qed.
+
 (* steps that start or advance no logout: pending entries may only disappear together with their subject *)
 Lemma LInv_base w st st' g nw kn :
-  LInv w st g -> nw = now st' ->
+  LInv w st g -> nw = now st' -> db_keeps (db st) (db st') ->
   (forall r p, lookup r (pend st') = Some p -> lookup r (pend st) = Some p /\ lookup (p_subj p) (db st') <> None) ->
   (forall r p, lookup r (pend st) = Some p -> lookup (p_subj p) (db st') <> None -> lookup r (pend st') = Some p) ->
   NoDup (keys (pend st')) ->
@@ -960,11 +1094,11 @@ Lemma LInv_base w st st' g nw kn :
   LInv w st' {| g_now := nw; g_know := kn; g_txn := close_txn (view_of st') (g_txn g);
                 g_owner := g_owner g; g_moot := g_moot g; g_ntxn := g_ntxn g |}.
 Proof.
-  intros I En Hp1 Hp2 ND Eh Er Ef W. destruct I as [I1 I2 I3 I4 I5 I6 I7 I8 I9]. constructor; cbn.
+  intros I En Dk Hp1 Hp2 ND Eh Er Ef W. destruct I as [I1 I2 I3 I4 I5 I6 I7 I8 I9]. constructor; cbn.
   - exact En.
   - congruence.
   - intros n T H. apply close_txn_some in H as [H P]. destruct (I3 n T H) as (A & B & C & D).
-    split; [congruence|]. split; [congruence|]. split; [apply present_view; exact P|exact D].
+    split; [congruence|]. split; [congruence|]. split; [exact C|]. eapply txn_kept; eassumption.
   - intros r n a T Ho H. apply close_txn_some in H as [H P]. destruct (I4 r n a T Ho H) as [L Hin]. split; [|exact Hin].
     apply Hp2; [exact L|]. cbn. apply present_view; exact P.
   - exact I5.
@@ -977,14 +1111,14 @@ Qed.
 
 Lemma LInv_same_pend w st st' g nw kn :
   LInv w st g -> nw = now st' -> pend st' = pend st -> heap st' = heap st ->
-  next_rid st' = next_rid st -> next_ref st' = next_ref st -> db_wf (db st') ->
+  next_rid st' = next_rid st -> next_ref st' = next_ref st -> db_wf (db st') -> db_keeps (db st) (db st') ->
   (forall s, lookup s (db st) <> None -> lookup s (db st') <> None) ->
   LInv w st' {| g_now := nw; g_know := kn; g_txn := close_txn (view_of st') (g_txn g);
                 g_owner := g_owner g; g_moot := g_moot g; g_ntxn := g_ntxn g |}.
 Proof.
-  intros I En Ep Eh Er Ef W Hdb. apply (LInv_base w st); try assumption.
+  intros I En Ep Eh Er Ef W Dk Hdb. apply (LInv_base w st); try assumption.
   - intros r p H. rewrite Ep in H. split; [exact H|]. destruct (L_pend _ _ _ I r p H) as (T & HT & Hs & _).
-    destruct (L_txn _ _ _ I _ T HT) as (_ & _ & C & _). apply Hdb. rewrite <- Hs. exact C.
+    apply Hdb. rewrite <- Hs. eapply L_txn_present; eassumption.
   - intros r p H _. rewrite Ep. exact H.
   - rewrite Ep. apply (L_nodup _ _ _ I).
 Qed.
@@ -997,9 +1131,10 @@ Proof.
   intros I L En. apply local_logout_some in L as (A1 & A2 & A3 & A4 & A5 & A6 & A7).
   pose proof (L_nodup _ _ _ I) as ND.
   apply (LInv_base w st); try assumption.
+  - rewrite A2. apply db_keeps_remove.
   - intros r p H. rewrite A4 in H. apply (lookup_purge s r p _ ND) in H as [H N]. split; [exact H|].
     rewrite A2, lookup_remove_neq by exact N. destruct (L_pend _ _ _ I r p H) as (T & HT & Hs & _).
-    destruct (L_txn _ _ _ I _ T HT) as (_ & _ & C & _). rewrite <- Hs. exact C.
+    rewrite <- Hs. eapply L_txn_present; eassumption.
   - intros r p H P. rewrite A4. apply (lookup_purge s r p _ ND). split; [exact H|].
     intros X. rewrite X, A2, lookup_remove_eq in P. apply P; reflexivity.
   - rewrite A4. apply NoDup_keys_filter; exact ND.
@@ -1035,7 +1170,8 @@ Proof.
   intros I Ho. destruct (frame_store st s i nooa ot) as (K & N & P).
   assert (L : LInv w (store st s i nooa ot)
                 (base_ghost g o ou (view_of (store st s i nooa ot)) (g_txn g) (g_owner g) (g_moot g) (g_ntxn g))).
-  { apply (LInv_same_pend w st); try reflexivity; [exact I| |apply db_wf_set; apply (L_db _ _ _ I)|apply keeps_db; exact K].
+  { apply (LInv_same_pend w st); try reflexivity;
+      [exact I| |apply db_wf_set; apply (L_db _ _ _ I)|apply db_keeps_set|apply keeps_db; exact K].
     destruct o; try contradiction; cbn; apply (L_now _ _ _ I). }
   destruct o; try contradiction; subst; (split; [exact Logic.I|split; [|exact L]]); cbn; auto.
 Qed.
@@ -1048,7 +1184,7 @@ Lemma GStep_same w st g o ou :
 Proof.
   intros I Ho. destruct (frame_same st st None eq_refl) as (K & N).
   assert (L : LInv w st (base_ghost g o ou (view_of st) (g_txn g) (g_owner g) (g_moot g) (g_ntxn g))).
-  { apply (LInv_same_pend w st); try reflexivity; [exact I| |apply (L_db _ _ _ I)|auto].
+  { apply (LInv_same_pend w st); try reflexivity; [exact I| |apply (L_db _ _ _ I)|apply db_keeps_same; reflexivity|auto].
     destruct o; try contradiction; cbn; apply (L_now _ _ _ I). }
   destruct o; try contradiction; (split; [exact Logic.I|split; [|exact L]]); cbn; auto.
   - split; [exact K|]. split; [apply no_new_weaken; exact N|reflexivity].
@@ -1080,7 +1216,7 @@ Proof.
                            next_rid := next_rid st; next_ref := next_ref st |}).
   destruct (frame_same st st' None eq_refl) as (K & N).
   split; [exact Logic.I|]. split; [split; [exact K|split; [exact N|reflexivity]]|].
-  apply (LInv_same_pend w st); try reflexivity; [exact I| |apply (L_db _ _ _ I)|auto].
+  apply (LInv_same_pend w st); try reflexivity; [exact I| |apply (L_db _ _ _ I)|apply db_keeps_same; reflexivity|auto].
   cbn. rewrite (L_now _ _ _ I). reflexivity.
 Qed.
 
@@ -1088,12 +1224,13 @@ Qed.
 Lemma LInv_step_gen w st st' g nw kn n vT ows mts ntx :
   LInv w st g ->
   nw = now st' -> ntx = next_ref st' -> (next_ref st <= next_ref st')%nat ->
-  db_wf (db st') ->
+  db_wf (db st') -> db_keeps (db st) (db st') ->
   (forall r p, lookup r (pend st') = Some p -> (r < next_rid st')%nat) ->
   NoDup (keys (pend st')) ->
   (forall n', n' <> n -> (n' < next_ref st)%nat -> heap st' n' = heap st n') ->
   (forall T, vT = Some T ->
-     (n < next_ref st')%nat /\ heap st' n = t_wait T /\ NoDup (t_wait T)) ->
+     (n < next_ref st')%nat /\ heap st' n = t_wait T /\ NoDup (t_wait T)
+     /\ exists l, lookup (t_subj T) (db st') = Some l /\ forall e, In e (t_wait T) -> lookup e l <> None) ->
   (forall r n0 a, ows r = Some (n0, a) -> (n0 < ntx)%nat) ->
   (forall r n0 a T0, ows r = Some (n0, a) -> n0 <> n -> g_txn g n0 = Some T0 -> lookup (t_subj T0) (db st') <> None ->
      g_owner g r = Some (n0, a) /\ lookup r (pend st') = lookup r (pend st)) ->
@@ -1102,19 +1239,18 @@ Lemma LInv_step_gen w st st' g nw kn n vT ows mts ntx :
      /\ In a (t_wait T) /\ asked_by_soap w a = false) ->
   (forall r p, lookup r (pend st') = Some p ->
      exists T, txn_set (g_txn g) n vT (p_ref p) = Some T /\ t_subj T = p_subj p /\ lookup (p_subj p) (db st') <> None /\
-       (ows r = Some (p_ref p, p_entity p) \/ (ows r = None /\ mts r = Some (p_ref p, p_entity p)))) ->
+       ows r = Some (p_ref p, p_entity p)) ->
   LInv w st' {| g_now := nw; g_know := kn; g_txn := close_txn (view_of st') (txn_set (g_txn g) n vT);
                 g_owner := ows; g_moot := mts; g_ntxn := ntx |}.
 Proof.
-  intros I En Ef Le W Hr ND Hh HT Hlt Hold Hnew Hpend. destruct I as [I1 I2 I3 I4 I5 I6 I7 I8 I9]. constructor; cbn.
+  intros I En Ef Le W Dk Hr ND Hh HT Hlt Hold Hnew Hpend. destruct I as [I1 I2 I3 I4 I5 I6 I7 I8 I9]. constructor; cbn.
   - exact En.
   - exact Ef.
   - intros n' T H. apply close_txn_some in H as [H P]. unfold txn_set in H.
     destruct (n' =? n)%nat eqn:E.
-    + apply Nat.eqb_eq in E; subst n'. destruct (HT T H) as (A & B & C).
-      split; [exact A|]. split; [exact B|]. split; [apply present_view; exact P|exact C].
+    + apply Nat.eqb_eq in E; subst n'. exact (HT T H).
     + apply Nat.eqb_neq in E. destruct (I3 n' T H) as (A & B & C & D).
-      split; [lia|]. split; [rewrite Hh by assumption; exact B|]. split; [apply present_view; exact P|exact D].
+      split; [lia|]. split; [rewrite Hh by assumption; exact B|]. split; [exact C|]. eapply txn_kept; eassumption.
   - intros r n0 a T Ho H. apply close_txn_some in H as [H P]. unfold txn_set in H.
     destruct (n0 =? n)%nat eqn:E.
     + apply Nat.eqb_eq in E; subst n0. exact (Hnew r a T Ho H).
@@ -1145,12 +1281,6 @@ Proof. intros H. rewrite lookup_app, H. reflexivity. Qed.
 Lemma pentry_eta p : p = {| p_entity := p_entity p; p_ref := p_ref p; p_subj := p_subj p; p_expire := p_expire p |}.
 Proof. destruct p; reflexivity. Qed.
 
-Lemma existsb_false_all {A} (f : A -> bool) l : existsb f l = false -> forall x, In x l -> f x = false.
-Proof.
-  intros H x Hx. destruct (f x) eqn:E; [|reflexivity].
-  assert (existsb f l = true) by (apply existsb_exists; exists x; split; assumption). congruence.
-Qed.
-
 Lemma In_keys_ex {V} k (l : list (nat * V)) : In k (keys l) -> exists v, In (k, v) l.
 Proof. unfold keys. intros H. apply in_map_iff in H as [[k' v] [E H]]. cbn in E. subst k'. exists v. exact H. Qed.
 
@@ -1161,45 +1291,6 @@ Proof.
   inversion Na as [|? ? Nk Nr]; subst. constructor.
   - rewrite in_app_iff. intros [H|H]; [exact (Nk H)|]. exact (D k (or_introl eq_refl) H).
   - apply IH; [exact Nr|exact Nb|]. intros k' H. apply D. right; exact H.
-Qed.
-
-Lemma open_trigger_zero w g vb o ou :
-  open_trigger w g vb o ou = 0%nat -> trigger w g vb o ou <> 4%nat /\ trigger w g vb o ou <> 5%nat.
-Proof.
-  unfold open_trigger, open_class. intros H. split; intros E; rewrite E in H; cbn in H; discriminate.
-Qed.
-
-Lemma soap_sub w ans l : existsb (asked_by_soap w) l = false -> existsb (soap_ok w ans) l = false.
-Proof.
-  intros H. destruct (existsb (soap_ok w ans) l) eqn:E; [|reflexivity].
-  apply existsb_exists in E as [x [Hx Sx]]. unfold soap_ok in Sx. apply andb_true_iff in Sx as [Sx _].
-  assert (existsb (asked_by_soap w) l = true) by (apply existsb_exists; exists x; split; assumption). congruence.
-Qed.
-
-(* no class-5 trigger: a pass that raises contains nobody who answers Success over SOAP *)
-Lemma trigger_start_exn w g st s dl ans l ou :
-  open_trigger w g (view_of st) (StartLogout s dl ans) ou = 0%nat -> lookup s (db st) = Some l ->
-  deadline_passed (g_now g) dl = false -> is_exn ou = true -> existsb (soap_ok w ans) (keys l) = false.
-Proof.
-  intros H Ls D Ex. apply open_trigger_zero in H as [_ H]. unfold trigger in H. rewrite issuers_view, Ls in H.
-  assert (P : present (view_of st) s = true) by (apply present_view; congruence). rewrite P, D, Ex in H. cbn [andb negb] in H.
-  destruct (existsb (asked_by_soap w) (keys l)) eqn:E; [|apply soap_sub; exact E].
-  destruct (existsb (soap_ok w ans) (keys l)); [cbn in H; congruence|reflexivity].
-Qed.
-
-Lemma trigger_response_exn w g vb r i ans ou n T :
-  open_trigger w g vb (LogoutResponse r i true ans) ou = 0%nat -> g_owner g r = Some (n, i) -> g_txn g n = Some T ->
-  deadline_passed (g_now g) (t_deadline T) = false -> is_exn ou = true ->
-  existsb (soap_ok w ans) (wait_minus i (t_wait T)) = false.
-Proof.
-  intros H Ho Ht D Ex. apply open_trigger_zero in H as [_ H]. unfold trigger in H.
-  rewrite Ho, Ht, Nat.eqb_refl, D, Ex in H. cbn [negb andb] in H.
-  destruct (existsb (soap_ok w ans) (wait_minus i (t_wait T))); [cbn in H; congruence|reflexivity].
-Qed.
-
-Lemma new_pending_same st st' : pend st' = pend st -> new_pending (view_of st) (view_of st') = [].
-Proof.
-  intros E. rewrite (new_pending_app st st' (pend st) []); [reflexivity|rewrite app_nil_r; exact E|auto|intros r p []].
 Qed.
 
 Lemma new_pending_sub st st' :
@@ -1225,11 +1316,35 @@ Proof.
   pose proof (L_rid _ _ _ I r p0 Lr). destruct (F r p Hr) as (B1 & _). lia.
 Qed.
 
-Lemma fresh_entries_filter w ans st s ref dl l news :
-  fresh_entries w st s ref dl l news -> fresh_entries w st s ref dl (filter (fun e => negb (soap_ok w ans e)) l) news.
+(* the model's stopping test is the monitor's, for an IdP the subject has a session with *)
+Lemma mstop_stopper w st g s ans l e :
+  KInv st g -> lookup s (db st) = Some l -> lookup e l <> None ->
+  mstop w (now st) (db st) s ans e = stopper w (g_know g s) ans e.
+Proof.
+  intros [_ K] Hs He. unfold mstop, stopper. destruct (choose w e) as [b|]; [|reflexivity].
+  destruct (lookup e l) as [en|] eqn:Le; [|congruence].
+  unfold c_get. rewrite Hs, Le. cbn [andb]. rewrite (K _ _ _ _ Hs Le).
+  destruct (e_info en); reflexivity.
+Qed.
+
+Lemma mpass_wait_pass w st g s ans l lst :
+  KInv st g -> lookup s (db st) = Some l -> (forall e, In e lst -> lookup e l <> None) ->
+  mpass_wait w st s ans lst = pass_wait w (g_know g s) ans lst.
+Proof.
+  intros K Hs He. unfold mpass_wait, pass_wait.
+  rewrite (reached_ext (mstop w (now st) (db st) s ans) (stopper w (g_know g s) ans) lst); [reflexivity|].
+  intros e Hin. eapply mstop_stopper; [exact K|exact Hs|apply He; exact Hin].
+Qed.
+
+Lemma pass_wait_front w know ans l e :
+  In e l -> asked_by_soap w e = false -> In e (pass_wait w know ans l).
+Proof. intros H F. apply filter_In. split; [exact H|]. rewrite (soap_ok_front w ans e F). reflexivity. Qed.
+
+Lemma fresh_entries_pass w know ans st s ref dl l news :
+  fresh_entries w st s ref dl l news -> fresh_entries w st s ref dl (pass_wait w know ans l) news.
 Proof.
   intros F r p Hr. destruct (F r p Hr) as (B1 & B2 & B3 & B4 & B5 & B6). do 4 (split; [assumption|]). split; [|exact B6].
-  apply filter_In. split; [exact B5|]. rewrite (soap_ok_front w ans _ B6). reflexivity.
+  apply pass_wait_front; assumption.
 Qed.
 
 (* purge after the pass: the entries just written belong to the subject and go with it *)
@@ -1245,17 +1360,15 @@ Qed.
 Lemma Old_pend w st g :
   LInv w st g -> forall r p, lookup r (pend st) = Some p ->
     exists T, g_txn g (p_ref p) = Some T /\ t_subj T = p_subj p /\ lookup (p_subj p) (db st) <> None
-              /\ (p_ref p < next_ref st)%nat
-              /\ (g_owner g r = Some (p_ref p, p_entity p)
-                  \/ (g_owner g r = None /\ g_moot g r = Some (p_ref p, p_entity p))).
+              /\ (p_ref p < next_ref st)%nat /\ g_owner g r = Some (p_ref p, p_entity p).
 Proof.
   intros I r p Hr. destruct (L_pend _ _ _ I r p Hr) as (T & HT & Hs & Ho). exists T.
-  destruct (L_txn _ _ _ I _ T HT) as (A & _ & C & _). rewrite Hs in C. auto.
+  pose proof (L_txn_present _ _ _ _ _ I HT) as C. destruct (L_txn _ _ _ I _ T HT) as (A & _). rewrite Hs in C. auto.
 Qed.
 
 (* a global logout is started and the session stays: transaction n = next_ref st waits for `wait` *)
-Lemma LInv_start_stay w st st' g s dl wait tsoap news nw kn :
-  LInv w st g -> lookup s (db st) <> None ->
+Lemma LInv_start_stay w st st' g s dl wait tsoap news nw kn ldb :
+  LInv w st g -> lookup s (db st) = Some ldb -> (forall e, In e wait -> lookup e ldb <> None) ->
   db st' = db st -> nw = now st' -> pend st' = pend st ++ news ->
   (next_rid st <= next_rid st')%nat -> next_ref st' = S (next_ref st) ->
   fresh_entries w st s (next_ref st) dl wait news ->
@@ -1267,7 +1380,8 @@ Lemma LInv_start_stay w st st' g s dl wait tsoap news nw kn :
                 g_owner := owner_add (g_owner g) (next_ref st) (map (fun rp => (fst rp, pv_of st' (snd rp))) news);
                 g_moot := g_moot g; g_ntxn := S (next_ref st) |}.
 Proof.
-  intros I Ps A1 En A5 A6 Ef A7' A8 A9 Hh Hn1 NDw.
+  intros I Ls Hiss A1 En A5 A6 Ef A7' A8 A9 Hh Hn1 NDw.
+  assert (Ps : lookup s (db st) <> None) by congruence.
   pose proof (L_ntxn _ _ _ I) as Entx. pose proof (L_nodup _ _ _ I) as NDp.
   pose proof (fresh_not_old _ _ _ _ _ _ _ _ I A7') as Fresh.
   apply (LInv_step_gen w st).
@@ -1276,13 +1390,15 @@ Proof.
   - congruence.
   - lia.
   - rewrite A1. apply (L_db _ _ _ I).
+  - apply db_keeps_same; exact A1.
   - intros r p Hr. rewrite A5, lookup_app in Hr. destruct (lookup r (pend st)) as [p0|] eqn:Lr.
     + pose proof (L_rid _ _ _ I r p0 Lr). lia.
     + apply lookup_In in Hr. exact (A8 r p Hr).
   - rewrite A5. apply NoDup_keys_app; [exact NDp|exact A9|].
     intros k Hk Hk'. apply In_keys_ex in Hk' as [p Hp]. exact (Fresh k p Hp Hk).
   - intros n' Hn _. apply Hh; exact Hn.
-  - intros T X. injection X as <-. cbn. split; [lia|]. split; [exact Hn1|exact NDw].
+  - intros T X. injection X as <-. cbn. split; [lia|]. split; [exact Hn1|]. split; [exact NDw|].
+    exists ldb. split; [rewrite A1; exact Ls|exact Hiss].
   - intros r n0 a Ho. apply owner_add_cases in Ho as [(pv & _ & X)|(_ & Ho)]; [injection X as -> _; lia|].
     pose proof (L_own_lt _ _ _ I r n0 a Ho). lia.
   - intros r n0 a T0 Ho Hn HT _. apply owner_add_cases in Ho as [(pv & _ & X)|(_ & Ho)]; [injection X as -> _; congruence|].
@@ -1308,7 +1424,7 @@ Proof.
     + apply lookup_In in Hr as Hin. destruct (A7' r p Hin) as (B1 & B2 & B3 & B4 & B5 & B6).
       exists {| t_subj := s; t_wait := wait; t_deadline := dl; t_soap := tsoap |}.
       unfold txn_set. rewrite B2, Nat.eqb_refl. split; [reflexivity|]. split; [cbn; congruence|].
-      split; [rewrite B3, A1; exact Ps|]. left. unfold owner_add. rewrite (lookup_map_snd (pv_of st')), Hr. reflexivity.
+      split; [rewrite B3, A1; exact Ps|]. unfold owner_add. rewrite (lookup_map_snd (pv_of st')), Hr. reflexivity.
 Qed.
 
 (* a global logout is started and ends the session at once (deadline passed, or everybody answered over SOAP) *)
@@ -1327,6 +1443,7 @@ Proof.
   - congruence.
   - lia.
   - rewrite A2. apply db_wf_remove, (L_db _ _ _ I).
+  - rewrite A2. apply db_keeps_remove.
   - intros r p Hr. apply Hp in Hr as [Hr _]. pose proof (L_rid _ _ _ I r p Hr). lia.
   - exact ND'.
   - intros n' Hn _. apply Hh; exact Hn.
@@ -1345,25 +1462,29 @@ Proof.
 Qed.
 
 Lemma GStep_start w st g s dl ans st' ou :
-  LInv w st g -> open_trigger w g (view_of st) (StartLogout s dl ans) ou = 0%nat ->
+  KInv st g -> LInv w st g ->
   global_logout w ans s dl st = (st', ou) -> GStep w st g (StartLogout s dl ans) st' ou.
 Proof.
-  intros I Tr H. unfold global_logout in H. destruct (lookup s (db st)) as [l|] eqn:Ls.
+  intros KI I H. unfold global_logout in H. destruct (lookup s (db st)) as [l|] eqn:Ls.
   2:{ injection H as <- <-.
       assert (P : present (view_of st) s = false) by (apply present_view_false; exact Ls).
       destruct (frame_same st st None eq_refl) as (K & N).
       split; [exact Logic.I|]. split.
       - cbn [cl_ends]. split; [apply keeps_weaken; exact K|]. split; [exact N|]. intros X; congruence.
       - unfold ghost_step. rewrite P.
-        apply (LInv_same_pend w st); try reflexivity; [exact I|cbn; apply (L_now _ _ _ I)|apply (L_db _ _ _ I)|auto]. }
+        apply (LInv_same_pend w st); try reflexivity;
+          [exact I|cbn; apply (L_now _ _ _ I)|apply (L_db _ _ _ I)|apply db_keeps_same; reflexivity|auto]. }
   assert (P : present (view_of st) s = true) by (apply present_view; congruence).
   assert (Ps : lookup s (db st) <> None) by congruence.
   destruct (L_db _ _ _ I s l Ls) as [ND NE].
   pose proof (L_now _ _ _ I) as Enow. pose proof (L_ntxn _ _ _ I) as Entx. pose proof (L_nodup _ _ _ I) as NDp.
+  assert (Hiss : forall e, In e (keys l) -> lookup e l <> None) by (intros e He; apply lookup_In_keys; exact He).
   unfold GStep, ghost_step. rewrite P. cbn [cl_pending cl_ends]. cbv zeta.
   rewrite issuers_view, Ls, Enow, Entx. unfold wait_start.
-  set (wait := filter (fun j => negb (soap_ok w ans j)) (keys l)).
+  set (wait := pass_wait w (g_know g s) ans (keys l)).
   assert (NDw : NoDup wait) by (apply NoDup_filter; exact ND).
+  assert (Hissw : forall e, In e wait -> lookup e l <> None).
+  { intros e He. apply filter_In in He as [He _]. apply Hiss; exact He. }
   assert (Hl : heap (alloc st (keys l)) (next_ref st) = keys l) by (cbn; rewrite Nat.eqb_refl; reflexivity).
   assert (Hother : forall n', n' <> next_ref st -> heap (alloc st (keys l)) n' = heap st n').
   { intros n' Hn. cbn. apply Nat.eqb_neq in Hn. rewrite Hn. reflexivity. }
@@ -1383,66 +1504,51 @@ Proof.
     + lia.
     + intros n' Hn. rewrite A5. apply Hother; exact Hn.
   - cbn [orb].
-    apply do_logout_pass in H as (st1 & Lp & Hc); [|exact D|rewrite Hl; exact ND]. rewrite Hl in Lp, Hc.
+    apply do_logout_pass in H as (st1 & Lp & Hh1 & Hc); [|exact D|rewrite Hl; exact ND|rewrite Hl; exact NE].
+    rewrite Hl in Lp, Hh1, Hc.
+    assert (Epw : mpass_wait w (alloc st (keys l)) s ans (keys l) = wait).
+    { change (mpass_wait w (alloc st (keys l)) s ans (keys l)) with (mpass_wait w st s ans (keys l)).
+      apply (mpass_wait_pass w st g s ans l); assumption. }
+    rewrite Epw in Hh1, Hc.
     destruct Lp as (A1 & A2 & A3 & A4 & news & A5 & A6 & A7 & A8 & A9). cbn in A1, A2, A4, A5, A6.
     assert (A7' : fresh_entries w st s (next_ref st) dl wait news).
-    { apply fresh_entries_filter. intros r p Hr. destruct (A7 r p Hr) as (B1 & B2 & B3 & B4 & B5 & B6). cbn in B1.
+    { apply fresh_entries_pass. intros r p Hr. destruct (A7 r p Hr) as (B1 & B2 & B3 & B4 & B5 & B6). cbn in B1.
       repeat (split; [assumption|]). exact B6. }
     pose proof (fresh_not_old _ _ _ _ _ _ _ _ I A7') as Fresh.
-    (* the session stays *)
-    match goal with |- ?G =>
-      assert (StayProof : wait <> [] -> db st' = db st -> now st' = now st -> pend st' = pend st ++ news ->
-                next_rid st' = next_rid st1 -> next_ref st' = S (next_ref st) ->
-                (forall n', heap st' n' = if (n' =? next_ref st)%nat then wait else heap (alloc st (keys l)) n') -> G)
-    end.
-    { intros NEw B1 B2 B3 B4 B5 B6.
-      destruct (frame_same st st' None B1) as (K & N).
-      assert (Pa : present (view_of st') s = true) by (apply present_view; rewrite B1; exact Ps).
+    destruct Hc as [(-> & NEw)|[(Ew & Ex & Lg)|(Ew & Fb)]].
+    + (* requests go out / some IdPs have answered over SOAP / the pass raised: the session stays *)
+      destruct (frame_same st st1 None A1) as (K & N).
+      assert (Pa : present (view_of st1) s = true) by (apply present_view; rewrite A1; exact Ps).
       split; [exact Logic.I|]. split.
       { split; [apply keeps_weaken; exact K|]. split; [exact N|]. intros _.
         split; [intros X; exfalso; exact (NEw X)|intros X; rewrite Pa in X; discriminate]. }
       rewrite (is_nil_false _ NEw).
-      rewrite (new_pending_app st st' (pend st) news B3 (fun r H => H) Fresh). unfold base_ghost.
-      apply (LInv_start_stay w st st' g s dl wait); try assumption.
-      - cbn. congruence.
-      - lia.
-      - intros r p Hr. rewrite B4. exact (A8 r p Hr).
-      - intros n' Hn. rewrite B6. apply Nat.eqb_neq in Hn as Hn'. rewrite Hn'. apply Hother; exact Hn.
-      - rewrite B6, Nat.eqb_refl. reflexivity. }
-    destruct Hc as [(-> & Ex)|(F1 & F2 & F3 & F4 & Hc)].
-    + (* the pass raised: nobody in it answered over SOAP, everybody is waited for *)
-      pose proof (trigger_start_exn _ _ _ _ _ _ _ _ Tr Ls) as Nx. rewrite Enow in Nx. specialize (Nx D Ex).
-      assert (Ew : wait = keys l) by (apply filter_not_soap_all; exact Nx).
-      apply StayProof; try assumption; try reflexivity.
-      * rewrite Ew; exact NE.
-      * intros n'. rewrite A3. destruct (n' =? next_ref st)%nat eqn:E; [|reflexivity].
-        apply Nat.eqb_eq in E; subst n'. rewrite Hl, Ew. reflexivity.
-    + fold wait in F4, Hc. cbn in F1, F3.
-      destruct Hc as [(Fa & Fb & Fc & Fd)|[(Fa & Fb & Fc & Fd & Fe)|(Fa & Fb)]].
-      * (* requests go out (and some IdPs may have answered over SOAP); the session stays *)
-        assert (NEw : wait <> []).
-        { destruct Fa as [Fa|Fa]; [|exact Fa]. unfold wait. rewrite (filter_not_soap_all _ _ _ Fa). exact NE. }
-        apply StayProof; try assumption; try (rewrite Fc; exact A5).
-      * (* everybody has answered over SOAP: the session ends *)
-        cbn in Fb, Fc. rewrite Fa. cbn [is_nil].
-        destruct (frame_remove st st' s Fc) as (K & N).
-        assert (Ab : present (view_of st') s = false) by (apply present_view_false; rewrite Fc; apply lookup_remove_eq).
-        assert (NDa : NoDup (keys (pend st ++ news))).
-        { apply NoDup_keys_app; [exact NDp|exact A9|].
-          intros k Hk Hk'. apply In_keys_ex in Hk' as [p Hp]. exact (Fresh k p Hp Hk). }
-        assert (Hs : forall r' q, In (r', q) news -> p_subj q = s).
-        { intros r' q Hq. destruct (A7' r' q Hq) as (_ & _ & B3 & _). exact B3. }
-        assert (Hp : forall r p, lookup r (pend st') = Some p <-> lookup r (pend st) = Some p /\ p_subj p <> s).
-        { intros r p. rewrite Fd, A5. apply lookup_purge_app; assumption. }
-        split; [exact Logic.I|]. split; [split; [exact K|split; [exact N|intros _; split; [intros _ _; exact Ab|reflexivity]]]|].
-        rewrite (new_pending_sub st st').
-        2:{ apply keys_sub_of_lookup. intros r p Hr. apply Hp in Hr as [Hr _]. exists p; exact Hr. }
-        unfold base_ghost. apply (LInv_start_end w st st' g s); try assumption.
-        -- cbn. congruence.
-        -- rewrite Fd, A5. apply NoDup_keys_filter; exact NDa.
-        -- lia.
-        -- intros n' Hn. rewrite F4. apply Nat.eqb_neq in Hn as Hn'. rewrite Hn'. apply Hother; exact Hn.
-      * cbn in Fb. congruence.
+      rewrite (new_pending_app st st1 (pend st) news A5 (fun r H => H) Fresh). unfold base_ghost.
+      apply (LInv_start_stay w st st1 g s dl wait _ news _ _ l); try assumption.
+      * cbn. congruence.
+      * intros n' Hn. rewrite (A3 n' Hn). apply Hother; exact Hn.
+    + (* everybody has answered over SOAP: the session ends *)
+      apply local_logout_some in Lg as (L1 & L2 & L3 & L4 & L5 & L6 & L7). rewrite A1 in L2.
+      rewrite Ew. cbn [is_nil].
+      destruct (frame_remove st st' s L2) as (K & N).
+      assert (Ab : present (view_of st') s = false) by (apply present_view_false; rewrite L2; apply lookup_remove_eq).
+      assert (NDa : NoDup (keys (pend st ++ news))).
+      { apply NoDup_keys_app; [exact NDp|exact A9|].
+        intros k Hk Hk'. apply In_keys_ex in Hk' as [p Hp]. exact (Fresh k p Hp Hk). }
+      assert (Hs : forall r' q, In (r', q) news -> p_subj q = s).
+      { intros r' q Hq. destruct (A7' r' q Hq) as (_ & _ & B3 & _). exact B3. }
+      assert (Hp : forall r p, lookup r (pend st') = Some p <-> lookup r (pend st) = Some p /\ p_subj p <> s).
+      { intros r p. rewrite L4, A5. apply lookup_purge_app; assumption. }
+      split; [exact Logic.I|]. split; [split; [exact K|split; [exact N|intros _; split; [intros _ _; exact Ab|reflexivity]]]|].
+      rewrite (new_pending_sub st st').
+      2:{ apply keys_sub_of_lookup. intros r p Hr. apply Hp in Hr as [Hr _]. exists p; exact Hr. }
+      unfold base_ghost. apply (LInv_start_end w st st' g s); try assumption.
+      * cbn. congruence.
+      * rewrite L4, A5. apply NoDup_keys_filter; exact NDa.
+      * lia.
+      * congruence.
+      * intros n' Hn. rewrite L5, (A3 n' Hn). apply Hother; exact Hn.
+    + cbn in Fb. congruence.
 Qed.
 
 Lemma answering_some g r i success n T :
@@ -1461,36 +1567,27 @@ Proof.
   split; [reflexivity|]. intros -> ->. rewrite !Nat.eqb_refl in E. discriminate.
 Qed.
 
-(* what becomes of the owner / moot marks of a request that stays pending while (n, i) is answered *)
-Lemma marks_after_answer ow mt n i r x :
-  (ow r = Some x \/ (ow r = None /\ mt r = Some x)) ->
-  (owner_drop ow n i r = Some x \/ (owner_drop ow n i r = None /\ moot_add mt ow n i r = Some x)).
+Lemma owner_drop_keep ow n i r n0 a :
+  ow r = Some (n0, a) -> ~ (n0 = n /\ a = i) -> owner_drop ow n i r = Some (n0, a).
 Proof.
-  unfold owner_drop, moot_add. intros [H|[H M]]; rewrite H.
-  - destruct x as [n' a']. destruct ((n' =? n)%nat && (a' =? i)%nat); [right; split; reflexivity|left; reflexivity].
-  - right. split; [reflexivity|exact M].
+  unfold owner_drop. intros -> N. destruct ((n0 =? n)%nat && (a =? i)%nat) eqn:E; [|reflexivity].
+  apply andb_true_iff in E as [E1 E2]. apply Nat.eqb_eq in E1, E2. exfalso. apply N. split; assumption.
 Qed.
 
-(* a LogoutResponse that does not answer a pending request changes nothing (after de5f1fed / 73294247) *)
+(* a LogoutResponse that does not answer a pending request changes nothing *)
 Lemma not_answering_same w st g r i success ans st' ou :
-  LInv w st g ->
-  open_trigger w g (view_of st) (LogoutResponse r i success ans) ou = 0%nat ->
-  answering g r i success = None ->
+  LInv w st g -> answering g r i success = None ->
   handle_logout_response w ans r i success st = (st', ou) -> st' = st.
 Proof.
-  intros I Tr An H. unfold handle_logout_response in H. destruct success; cbn [negb] in H.
+  intros I An H. unfold handle_logout_response in H. destruct success; cbn [negb] in H.
   2:{ injection H as <- _; reflexivity. }
   destruct (lookup r (pend st)) as [p|] eqn:Lr.
   2:{ injection H as <- _; reflexivity. }
   destruct (p_entity p =? i)%nat eqn:Ei; cbn [negb] in H.
   2:{ injection H as <- _; reflexivity. }
   exfalso. apply Nat.eqb_eq in Ei.
-  destruct (L_pend _ _ _ I r p Lr) as (T & HT & _ & [Ho|[Ho Hm]]).
-  - unfold answering in An. rewrite Ho, Ei, Nat.eqb_refl, HT in An. discriminate.
-  - apply open_trigger_zero in Tr as [Tr _]. apply Tr. unfold trigger. rewrite Ho.
-    assert (M : mem r (pending_ids (view_of st)) = true).
-    { rewrite pending_ids_view. apply mem_In, lookup_In_keys. congruence. }
-    rewrite M, Hm, HT, Ei, Nat.eqb_refl. reflexivity.
+  destruct (L_pend _ _ _ I r p Lr) as (T & HT & _ & Ho).
+  unfold answering in An. rewrite Ho, Ei, Nat.eqb_refl, HT in An. discriminate.
 Qed.
 
 Lemma lookup_remove_some {V} k k' (l : list (nat * V)) v : lookup k' (remove k l) = Some v -> k' <> k /\ lookup k' l = Some v.
@@ -1503,12 +1600,39 @@ Lemma owner_unique g r n i r' n0 a :
   g_owner g r = Some (n, i) -> g_owner g r' = Some (n0, a) -> (n0 <> n \/ a <> i) -> r' <> r.
 Proof. intros A B C ->. rewrite A in B. injection B as <- <-. destruct C as [C|C]; apply C; reflexivity. Qed.
 
+(* what is left of the pending requests when (n, i) has answered request r (e58d2614) *)
+Lemma lookup_drop_moot n i r l r' p :
+  NoDup (keys l) ->
+  (lookup r' (drop_moot n i (remove r l)) = Some p
+   <-> r' <> r /\ lookup r' l = Some p /\ ~ (p_ref p = n /\ p_entity p = i)).
+Proof.
+  intros N. unfold drop_moot, rid.
+  pose proof (lookup_filter_snd (fun q => negb ((p_ref q =? n)%nat && (p_entity q =? i)%nat)) r' (remove r l)
+                (NoDup_keys_remove r l N)) as E0.
+  cbn beta in E0. rewrite E0. clear E0.
+  destruct (lookup r' (remove r l)) as [q|] eqn:L0.
+  - apply lookup_remove_some in L0 as [Ne L0].
+    destruct ((p_ref q =? n)%nat && (p_entity q =? i)%nat) eqn:E; cbn.
+    + apply andb_true_iff in E as [E1 E2]. apply Nat.eqb_eq in E1, E2.
+      split; [discriminate|]. intros (_ & H & X). rewrite L0 in H. injection H as <-. exfalso. apply X. split; assumption.
+    + split.
+      * intros H; injection H as <-. split; [exact Ne|]. split; [exact L0|]. intros [X1 X2]. subst.
+        rewrite !Nat.eqb_refl in E. discriminate.
+      * intros (_ & H & _). congruence.
+  - split; [discriminate|]. intros (Ne & H & _). rewrite <- (lookup_remove_neq r r' l Ne) in H. congruence.
+Qed.
+
+Lemma keys_drop_moot_subset n i r (l : list (rid * pentry)) k : In k (keys (drop_moot n i (remove r l))) -> In k (keys l).
+Proof. intros H. apply keys_filter_subset in H. exact (keys_remove_subset0 r k l H). Qed.
+
 (* the answer that ends the session (last involved IdP, deadline passed, or the rest answers over SOAP):
    the subject's other requests are dropped with it *)
 Lemma LInv_response_end w st st' g r i n T nw kn :
   LInv w st g -> g_owner g r = Some (n, i) -> g_txn g n = Some T ->
   db st' = remove (t_subj T) (db st) -> nw = now st' ->
-  (forall r' p, lookup r' (pend st') = Some p <-> r' <> r /\ lookup r' (pend st) = Some p /\ p_subj p <> t_subj T) ->
+  (forall r' p, lookup r' (pend st') = Some p ->
+     r' <> r /\ lookup r' (pend st) = Some p /\ p_subj p <> t_subj T) ->
+  (forall r' p, r' <> r -> lookup r' (pend st) = Some p -> p_subj p <> t_subj T -> lookup r' (pend st') = Some p) ->
   NoDup (keys (pend st')) ->
   (forall n', n' <> n -> heap st' n' = heap st n') -> (next_rid st <= next_rid st')%nat -> next_ref st' = next_ref st ->
   LInv w st' {| g_now := nw; g_know := kn; g_txn := close_txn (view_of st') (txn_set (g_txn g) n None);
@@ -1516,7 +1640,7 @@ Lemma LInv_response_end w st st' g r i n T nw kn :
                 g_moot := moot_add (g_moot g) (g_owner g) n i;
                 g_ntxn := g_ntxn g |}.
 Proof.
-  intros I Ho Ht Ed En Lk ND' Eh Er Ef.
+  intros I Ho Ht Ed En Lk Lk2 ND' Eh Er Ef.
   assert (NP : new_pending (view_of st) (view_of st') = []).
   { apply new_pending_sub. apply keys_sub_of_lookup. intros r' p Hr. apply Lk in Hr as (_ & Hr & _). exists p; exact Hr. }
   rewrite NP. apply (LInv_step_gen w st).
@@ -1525,6 +1649,7 @@ Proof.
   - rewrite Ef. apply (L_ntxn _ _ _ I).
   - lia.
   - rewrite Ed. apply db_wf_remove, (L_db _ _ _ I).
+  - rewrite Ed. apply db_keeps_remove.
   - intros r' p Hr. apply Lk in Hr as (_ & Hr' & _). pose proof (L_rid _ _ _ I r' p Hr'). lia.
   - exact ND'.
   - intros n' Hn _. apply Eh; exact Hn.
@@ -1535,26 +1660,26 @@ Proof.
     apply owner_drop_some in Hx as [Hx _]. split; [exact Hx|].
     destruct (L_own _ _ _ I r' n0 a T0 Hx HT) as [L0 _].
     assert (Ne : r' <> r) by (eapply owner_unique; [exact Ho|exact Hx|left; exact Hn]).
-    rewrite L0. apply Lk. split; [exact Ne|]. split; [exact L0|].
+    rewrite L0. apply Lk2; [exact Ne|exact L0|].
     cbn. intros X. rewrite X, Ed, lookup_remove_eq in Pd. apply Pd; reflexivity.
   - intros r' a T0 _ X; discriminate.
   - intros r' p Hr. apply Lk in Hr as (Ne & Hr' & Ns).
-    destruct (L_pend _ _ _ I r' p Hr') as (T' & HT' & Hs & Hm).
-    destruct (L_txn _ _ _ I _ T' HT') as (_ & _ & C & _). rewrite Hs in C.
+    destruct (Old_pend _ _ _ I r' p Hr') as (T' & HT' & Hs & C & _ & Hm).
     assert (Hn : p_ref p <> n). { intros X. rewrite X, Ht in HT'. injection HT' as <-. apply Ns. symmetry; exact Hs. }
-    exists T'. unfold txn_set. apply Nat.eqb_neq in Hn. rewrite Hn.
+    exists T'. unfold txn_set. apply Nat.eqb_neq in Hn as Hn'. rewrite Hn'.
     split; [exact HT'|]. split; [exact Hs|]. split; [rewrite Ed, lookup_remove_neq by exact Ns; exact C|].
-    unfold owner_add. cbn. apply marks_after_answer. exact Hm.
+    unfold owner_add. cbn. apply owner_drop_keep; [exact Hm|]. intros [X _]. exact (Hn X).
 Qed.
 
 (* the answer after which others are still waited for (they are asked again) *)
 Lemma LInv_response_stay w st st' g r i n T wait' news nw kn :
   LInv w st g -> g_owner g r = Some (n, i) -> g_txn g n = Some T ->
-  db st' = db st -> nw = now st' -> pend st' = remove r (pend st) ++ news ->
+  db st' = db st -> nw = now st' -> pend st' = drop_moot n i (remove r (pend st)) ++ news ->
   (next_rid st <= next_rid st')%nat -> next_ref st' = next_ref st ->
   fresh_entries w st (t_subj T) n (t_deadline T) wait' news ->
   (forall r' p, In (r', p) news -> (r' < next_rid st')%nat) -> NoDup (keys news) ->
   (forall n', n' <> n -> heap st' n' = heap st n') -> heap st' n = wait' -> NoDup wait' ->
+  (forall a, In a wait' -> In a (t_wait T)) ->
   (forall a, In a (t_wait T) -> a <> i -> asked_by_soap w a = false -> In a wait') ->
   LInv w st' {| g_now := nw; g_know := kn;
                 g_txn := close_txn (view_of st') (txn_set (g_txn g) n
@@ -1562,10 +1687,16 @@ Lemma LInv_response_stay w st st' g r i n T wait' news nw kn :
                 g_owner := owner_add (owner_drop (g_owner g) n i) n (map (fun rp => (fst rp, pv_of st' (snd rp))) news);
                 g_moot := moot_add (g_moot g) (g_owner g) n i; g_ntxn := g_ntxn g |}.
 Proof.
-  intros I Ho Ht A1 En A5 A6 Ef A7' A8 A9 Hh Hn1 NDw Hsub.
-  destruct (L_txn _ _ _ I n T Ht) as (Hn & Hheap & Ps & ND).
+  intros I Ho Ht A1 En A5 A6 Ef A7' A8 A9 Hh Hn1 NDw Hsup Hsub.
+  destruct (L_txn _ _ _ I n T Ht) as (Hn & Hheap & ND & ldb & Ls & Hiss).
+  assert (Ps : lookup (t_subj T) (db st) <> None) by congruence.
   pose proof (L_nodup _ _ _ I) as NDp.
   pose proof (fresh_not_old _ _ _ _ _ _ _ _ I A7') as Fresh.
+  set (olds := drop_moot n i (remove r (pend st))) in *.
+  assert (Lold : forall r' p, lookup r' olds = Some p <-> r' <> r /\ lookup r' (pend st) = Some p /\ ~ (p_ref p = n /\ p_entity p = i)).
+  { intros r' p. apply lookup_drop_moot; exact NDp. }
+  assert (NDo : NoDup (keys olds)) by (apply NoDup_keys_filter, NoDup_keys_remove; exact NDp).
+  assert (Ksub : forall k, In k (keys olds) -> In k (keys (pend st))) by (intros k; apply keys_drop_moot_subset).
   set (T' := {| t_subj := t_subj T; t_wait := wait'; t_deadline := t_deadline T; t_soap := t_soap T |}).
   apply (LInv_step_gen w st).
   - exact I.
@@ -1573,13 +1704,15 @@ Proof.
   - rewrite Ef. apply (L_ntxn _ _ _ I).
   - lia.
   - rewrite A1. apply (L_db _ _ _ I).
-  - intros r' p Hr. rewrite A5, lookup_app in Hr. destruct (lookup r' (remove r (pend st))) as [p0|] eqn:L0.
-    + apply lookup_remove_some in L0 as [_ L0]. pose proof (L_rid _ _ _ I r' p0 L0). lia.
+  - apply db_keeps_same; exact A1.
+  - intros r' p Hr. rewrite A5, lookup_app in Hr. destruct (lookup r' olds) as [p0|] eqn:L0.
+    + apply Lold in L0 as (_ & L0 & _). pose proof (L_rid _ _ _ I r' p0 L0). lia.
     + apply lookup_In in Hr. exact (A8 r' p Hr).
-  - rewrite A5. apply NoDup_keys_app; [apply NoDup_keys_remove; exact NDp|exact A9|].
-    intros k Hk Hk'. apply In_keys_ex in Hk' as [p Hp]. apply (Fresh k p Hp). exact (keys_remove_subset r k _ Hk).
+  - rewrite A5. apply NoDup_keys_app; [exact NDo|exact A9|].
+    intros k Hk Hk'. apply In_keys_ex in Hk' as [p Hp]. apply (Fresh k p Hp). apply Ksub; exact Hk.
   - intros n' Hn' _. apply Hh; exact Hn'.
-  - intros T0 X. injection X as <-. cbn. split; [lia|]. split; [exact Hn1|exact NDw].
+  - intros T0 X. injection X as <-. cbn. split; [lia|]. split; [exact Hn1|]. split; [exact NDw|].
+    exists ldb. split; [rewrite A1; exact Ls|]. intros e He. apply Hiss, Hsup, He.
   - intros r' n0 a Hx. apply owner_add_cases in Hx as [(pv & _ & X)|(_ & Hx)].
     + injection X as -> _. exact (L_own_lt _ _ _ I r n i Ho).
     + apply owner_drop_some in Hx as [Hx _]. exact (L_own_lt _ _ _ I r' n0 a Hx).
@@ -1587,98 +1720,111 @@ Proof.
     apply owner_drop_some in Hx as [Hx _]. split; [exact Hx|].
     destruct (L_own _ _ _ I r' n0 a T0 Hx HT) as [L0 _].
     assert (Ne : r' <> r) by (eapply owner_unique; [exact Ho|exact Hx|left; exact Hn0]).
-    rewrite A5. etransitivity; [apply lookup_app_old; rewrite lookup_remove_neq by exact Ne; exact L0|symmetry; exact L0].
+    rewrite A5, L0. apply lookup_app_old. apply Lold. split; [exact Ne|]. split; [exact L0|]. cbn. intros [X _]. exact (Hn0 X).
   - intros r' a T0 Hx X. injection X as <-. cbn [t_subj t_deadline t_wait].
     apply owner_add_cases in Hx as [(pv & Hl & X)|(_ & Hx)].
     + injection X as ->. rewrite (lookup_map_snd (pv_of st')) in Hl.
       destruct (lookup r' news) as [p|] eqn:Ln; [|discriminate]. cbn in Hl. injection Hl as <-. cbn [pv_of pv_entity].
       apply lookup_In in Ln as Hi. destruct (A7' r' p Hi) as (B1 & B2 & B3 & B4 & B5 & B6).
-      assert (L0 : lookup r' (remove r (pend st)) = None).
-      { apply lookup_None_keys. intros X. apply keys_remove_subset in X. exact (Fresh r' p Hi X). }
+      assert (L0 : lookup r' olds = None).
+      { apply lookup_None_keys. intros X. apply Ksub in X. exact (Fresh r' p Hi X). }
       rewrite A5, (lookup_app_new _ _ _ L0), Ln. split; [|split; [exact B5|exact B6]].
       rewrite (pentry_eta p) at 1. rewrite B2, B3, B4. reflexivity.
     + apply owner_drop_some in Hx as [Hx Ha]. specialize (Ha eq_refl).
       destruct (L_own _ _ _ I r' n a T Hx Ht) as (L0 & Hin0 & Fr0).
       assert (Ne : r' <> r) by (eapply owner_unique; [exact Ho|exact Hx|right; exact Ha]).
-      rewrite A5. split; [apply lookup_app_old; rewrite lookup_remove_neq by exact Ne; exact L0|].
-      split; [apply Hsub; assumption|exact Fr0].
-  - intros r' p Hr. rewrite A5, lookup_app in Hr. destruct (lookup r' (remove r (pend st))) as [p0|] eqn:L0.
-    + injection Hr as <-. apply lookup_remove_some in L0 as [Ne L0].
-      destruct (L_pend _ _ _ I r' p0 L0) as (T0 & HT0 & Hs & Hm).
-      destruct (L_txn _ _ _ I _ T0 HT0) as (_ & _ & C & _). rewrite Hs in C.
+      rewrite A5. split; [|split; [apply Hsub; assumption|exact Fr0]].
+      apply lookup_app_old. apply Lold. split; [exact Ne|]. split; [exact L0|]. cbn. intros [_ X]. exact (Ha X).
+  - intros r' p Hr. rewrite A5, lookup_app in Hr. destruct (lookup r' olds) as [p0|] eqn:L0.
+    + injection Hr as <-. apply Lold in L0 as (Ne & L0 & Nm).
+      destruct (Old_pend _ _ _ I r' p0 L0) as (T0 & HT0 & Hs & C & _ & Hm).
       assert (Ln : lookup r' news = None).
       { apply lookup_None_keys. intros Hk. apply In_keys_ex in Hk as [q Hq]. apply (Fresh r' q Hq).
         apply lookup_In_keys. congruence. }
       assert (Marks : owner_add (owner_drop (g_owner g) n i) n (map (fun rp => (fst rp, pv_of st' (snd rp))) news) r'
-                      = owner_drop (g_owner g) n i r').
-      { unfold owner_add. rewrite (lookup_map_snd (pv_of st')), Ln. reflexivity. }
+                      = Some (p_ref p0, p_entity p0)).
+      { unfold owner_add. rewrite (lookup_map_snd (pv_of st')), Ln. cbn. apply owner_drop_keep; assumption. }
       rewrite Marks. unfold txn_set. destruct (p_ref p0 =? n)%nat eqn:En0.
       * apply Nat.eqb_eq in En0. rewrite En0, Ht in HT0. injection HT0 as <-. exists T'.
-        split; [reflexivity|]. split; [exact Hs|]. split; [rewrite A1; exact C|]. apply marks_after_answer. exact Hm.
-      * exists T0. split; [exact HT0|]. split; [exact Hs|]. split; [rewrite A1; exact C|]. apply marks_after_answer. exact Hm.
+        split; [reflexivity|]. split; [exact Hs|]. split; [rewrite A1; exact C|reflexivity].
+      * exists T0. split; [exact HT0|]. split; [exact Hs|]. split; [rewrite A1; exact C|reflexivity].
     + apply lookup_In in Hr as Hi. destruct (A7' r' p Hi) as (B1 & B2 & B3 & B4 & B5 & B6).
       exists T'. unfold txn_set. rewrite B2, Nat.eqb_refl. split; [reflexivity|]. split; [cbn; congruence|].
-      split; [rewrite B3, A1; exact Ps|]. left. unfold owner_add. rewrite (lookup_map_snd (pv_of st')), Hr. reflexivity.
+      split; [rewrite B3, A1; exact Ps|]. unfold owner_add. rewrite (lookup_map_snd (pv_of st')), Hr. reflexivity.
 Qed.
 
 Lemma GStep_response w st g r i success ans st' ou :
-  LInv w st g -> open_trigger w g (view_of st) (LogoutResponse r i success ans) ou = 0%nat ->
+  KInv st g -> LInv w st g ->
   handle_logout_response w ans r i success st = (st', ou) ->
   GStep w st g (LogoutResponse r i success ans) st' ou.
 Proof.
-  intros I Tr H. destruct (answering g r i success) as [[n T]|] eqn:An.
+  intros KI I H. destruct (answering g r i success) as [[n T]|] eqn:An.
   2:{ (* does not answer a pending request: nothing changes *)
-      pose proof (not_answering_same _ _ _ _ _ _ _ _ _ I Tr An H) as ->.
+      pose proof (not_answering_same _ _ _ _ _ _ _ _ _ I An H) as ->.
       unfold GStep, ghost_step. cbn [cl_pending cl_ends]. rewrite An.
       split; [intros _; split; reflexivity|]. split; [exact Logic.I|].
-      apply (LInv_same_pend w st); try reflexivity; [exact I|cbn; apply (L_now _ _ _ I)|apply (L_db _ _ _ I)|auto]. }
+      apply (LInv_same_pend w st); try reflexivity;
+        [exact I|cbn; apply (L_now _ _ _ I)|apply (L_db _ _ _ I)|apply db_keeps_same; reflexivity|auto]. }
   destruct (answering_some _ _ _ _ _ _ An) as (-> & Ho & Ht).
   destruct (L_own _ _ _ I r n i T Ho Ht) as (Lr & Hin & Fri).
-  destruct (L_txn _ _ _ I n T Ht) as (Hn & Hh & Ps & ND).
+  destruct (L_txn _ _ _ I n T Ht) as (Hn & Hh & ND & ldb & Ls & Hiss).
+  assert (Ps : lookup (t_subj T) (db st) <> None) by congruence.
   pose proof (L_now _ _ _ I) as Enow. pose proof (L_ntxn _ _ _ I) as Entx. pose proof (L_nodup _ _ _ I) as NDp.
-  assert (NDr : NoDup (keys (remove r (pend st)))) by (apply NoDup_keys_remove; exact NDp).
+  set (olds := drop_moot n i (remove r (pend st))).
+  assert (Lold : forall r' p, lookup r' olds = Some p <-> r' <> r /\ lookup r' (pend st) = Some p /\ ~ (p_ref p = n /\ p_entity p = i)).
+  { intros r' p. apply lookup_drop_moot; exact NDp. }
+  assert (NDo : NoDup (keys olds)) by (apply NoDup_keys_filter, NoDup_keys_remove; exact NDp).
+  assert (Ksub : forall k, In k (keys olds) -> In k (keys (pend st))) by (intros k; apply keys_drop_moot_subset).
   unfold handle_logout_response in H. cbn [negb] in H. rewrite Lr in H.
   cbn [p_entity p_ref p_subj p_expire] in H. rewrite Nat.eqb_refl in H. cbn [negb set_pend heap] in H. rewrite Hh in H.
+  fold olds in H.
   unfold GStep, ghost_step. cbn [cl_pending cl_ends]. rewrite An. cbv zeta.
-  rewrite (wait_answer_filter w ans i _ ND), (wait_minus_remove_first i _ ND), Enow.
+  unfold wait_answer. rewrite (wait_minus_remove_first i _ ND), Enow.
   split; [intros X; discriminate|].
   (* the session ends: the subject's requests go with it *)
-  assert (EndLk : forall olds news, pend st' = purge (t_subj T) (olds ++ news) -> olds = remove r (pend st) ->
+  assert (EndLk : forall news, pend st' = purge (t_subj T) (olds ++ news) ->
             NoDup (keys (olds ++ news)) -> (forall r' q, In (r', q) news -> p_subj q = t_subj T) ->
-            forall r' p, lookup r' (pend st') = Some p <-> r' <> r /\ lookup r' (pend st) = Some p /\ p_subj p <> t_subj T).
-  { intros olds news Ep -> Nd Hs r' p. rewrite Ep, (lookup_purge_app _ _ _ r' p Nd Hs). split.
-    - intros [L0 Ns]. apply lookup_remove_some in L0 as [Ne L0]. auto.
-    - intros (Ne & L0 & Ns). split; [rewrite lookup_remove_neq by exact Ne; exact L0|exact Ns]. }
+            (forall r' p, lookup r' (pend st') = Some p -> r' <> r /\ lookup r' (pend st) = Some p /\ p_subj p <> t_subj T)
+            /\ (forall r' p, r' <> r -> lookup r' (pend st) = Some p -> p_subj p <> t_subj T -> lookup r' (pend st') = Some p)).
+  { intros news Ep Nd Hs. split.
+    - intros r' p Hr. rewrite Ep in Hr. apply (lookup_purge_app _ _ _ r' p Nd Hs) in Hr as [L0 Ns].
+      apply Lold in L0 as (Ne & L0 & _). auto.
+    - intros r' p Ne L0 Ns. rewrite Ep. apply (lookup_purge_app _ _ _ r' p Nd Hs). split; [|exact Ns].
+      apply Lold. split; [exact Ne|]. split; [exact L0|]. intros [X _].
+      destruct (Old_pend _ _ _ I r' p L0) as (T0 & HT0 & Hs0 & _). rewrite X, Ht in HT0. injection HT0 as <-.
+      apply Ns. symmetry; exact Hs0. }
   destruct (list_eqb (t_wait T) [i]) eqn:Eq.
   - (* the last involved IdP has answered *)
     apply list_eqb_eq in Eq.
-    set (st1 := set_pend st (remove r (pend st))) in *.
+    set (st1 := set_pend st olds) in *.
     destruct (local_logout st1 (t_subj T)) as [st2|] eqn:Lg.
     2:{ apply local_logout_none in Lg. cbn in Lg. congruence. }
     injection H as <- <-. pose proof (removed_absent _ _ _ Lg) as Ab.
     apply local_logout_some in Lg as (A1 & A2 & A3 & A4 & A5 & A6 & A7). cbn in A1, A2, A3, A4, A5, A6, A7.
     destruct (frame_remove st st2 (t_subj T) A2) as (K & N).
     assert (W0 : remove_first i (t_wait T) = []) by (rewrite Eq; cbn; rewrite Nat.eqb_refl; reflexivity).
-    rewrite W0. cbn [filter]. split.
+    rewrite W0. unfold pass_wait. cbn [filter]. split.
     + split; [exact K|]. split; [exact N|]. destruct (deadline_passed (now st) (t_deadline T)); [exact Ab|].
       split; [intros _; exact Ab|]. split; [intros _ _; exact Ab|reflexivity].
     + cbn [is_nil]. rewrite orb_true_r. unfold base_ghost.
+      destruct (EndLk []) as [Lk1 Lk2]; [rewrite app_nil_r; exact A4|rewrite app_nil_r; exact NDo|intros r' q []|].
       apply (LInv_response_end w st st2 g r i n T); try assumption.
       * cbn. congruence.
-      * apply (EndLk (remove r (pend st)) []); [rewrite app_nil_r; exact A4|reflexivity|rewrite app_nil_r; exact NDr|intros r' q []].
-      * rewrite A4. apply NoDup_keys_filter; exact NDr.
+      * rewrite A4. apply NoDup_keys_filter; exact NDo.
       * intros n' _. rewrite A5. reflexivity.
       * lia.
   - assert (Mi : mem i (t_wait T) = true) by (apply mem_In; exact Hin). rewrite Mi in H.
     set (l0 := remove_first i (t_wait T)) in *.
-    set (st2 := set_heap (set_pend st (remove r (pend st))) n l0) in *.
+    set (st2 := set_heap (set_pend st olds) n l0) in *.
     assert (NE : l0 <> []).
     { intros X. apply (remove_first_nil _ _ Hin) in X. rewrite X in Eq. cbn in Eq. rewrite Nat.eqb_refl in Eq. discriminate. }
     assert (ND0 : NoDup l0) by (apply NoDup_remove_first; exact ND).
     assert (Hl : heap st2 n = l0) by (cbn; rewrite Nat.eqb_refl; reflexivity).
     assert (Hother : forall n', n' <> n -> heap st2 n' = heap st n').
     { intros n' Hn'. cbn. apply Nat.eqb_neq in Hn'. rewrite Hn'. reflexivity. }
-    set (wait' := filter (fun e => negb (soap_ok w ans e)) l0).
+    assert (Hiss0 : forall e, In e l0 -> lookup e ldb <> None).
+    { intros e He. apply Hiss. eapply remove_first_subset; exact He. }
+    set (wait' := pass_wait w (g_know g (t_subj T)) ans l0).
     destruct (deadline_passed (now st) (t_deadline T)) eqn:D.
     + (* the deadline has passed *)
       cbn [orb].
@@ -1687,81 +1833,66 @@ Proof.
       apply local_logout_some in Lg as (A1 & A2 & A3 & A4 & A5 & A6 & A7). cbn in A1, A2, A3, A4, A6, A7.
       destruct (frame_remove st st' (t_subj T) A2) as (K & N).
       split; [split; [exact K|split; [exact N|exact Ab]]|].
+      destruct (EndLk []) as [Lk1 Lk2]; [rewrite app_nil_r; exact A4|rewrite app_nil_r; exact NDo|intros r' q []|].
       unfold base_ghost. apply (LInv_response_end w st st' g r i n T); try assumption.
       * cbn. congruence.
-      * apply (EndLk (remove r (pend st)) []); [rewrite app_nil_r; exact A4|reflexivity|rewrite app_nil_r; exact NDr|intros r' q []].
-      * rewrite A4. apply NoDup_keys_filter; exact NDr.
+      * rewrite A4. apply NoDup_keys_filter; exact NDo.
       * intros n' Hn'. rewrite A5. apply Hother; exact Hn'.
       * lia.
     + cbn [orb].
-      apply do_logout_pass in H as (st1 & Lp & Hc); [|exact D|rewrite Hl; exact ND0]. rewrite Hl in Lp, Hc.
+      apply do_logout_pass in H as (st1 & Lp & Hh1 & Hc); [|exact D|rewrite Hl; exact ND0|rewrite Hl; exact NE].
+      rewrite Hl in Lp, Hh1, Hc.
+      assert (Epw : mpass_wait w st2 (t_subj T) ans l0 = wait').
+      { change (mpass_wait w st2 (t_subj T) ans l0) with (mpass_wait w st (t_subj T) ans l0).
+        apply (mpass_wait_pass w st g (t_subj T) ans ldb); assumption. }
+      rewrite Epw in Hh1, Hc.
       destruct Lp as (A1 & A2 & A3 & A4 & news & A5 & A6 & A7 & A8 & A9). cbn in A1, A2, A4, A5, A6.
       assert (A7' : fresh_entries w st (t_subj T) n (t_deadline T) wait' news).
-      { apply fresh_entries_filter. intros r' p Hr. destruct (A7 r' p Hr) as (B1 & B2 & B3 & B4 & B5 & B6). cbn in B1.
+      { apply fresh_entries_pass. intros r' p Hr. destruct (A7 r' p Hr) as (B1 & B2 & B3 & B4 & B5 & B6). cbn in B1.
         repeat (split; [assumption|]). exact B6. }
       pose proof (fresh_not_old _ _ _ _ _ _ _ _ I A7') as Fresh.
-      assert (Hsub0 : forall a, In a (t_wait T) -> a <> i -> asked_by_soap w a = false -> In a wait').
-      { intros a Ha Na Fa. apply filter_In. split; [apply In_remove_first; assumption|].
-        rewrite (soap_ok_front w ans a Fa). reflexivity. }
-      match goal with |- ?G =>
-        assert (StayProof : wait' <> [] -> db st' = db st -> now st' = now st -> pend st' = remove r (pend st) ++ news ->
-                  next_rid st' = next_rid st1 -> next_ref st' = next_ref st ->
-                  (forall n', heap st' n' = if (n' =? n)%nat then wait' else heap st2 n') -> G)
-      end.
-      { intros NEw B1 B2 B3 B4 B5 B6.
-        destruct (frame_same st st' None B1) as (K & N).
-        assert (Pa : present (view_of st') (t_subj T) = true) by (apply present_view; rewrite B1; exact Ps).
+      destruct Hc as [(-> & NEw)|[(Ew & Ex & Lg)|(Ew & Fb)]].
+      * (* the others are asked again / some have answered over SOAP / the pass raised: the session stays *)
+        destruct (frame_same st st1 None A1) as (K & N).
+        assert (Pa : present (view_of st1) (t_subj T) = true) by (apply present_view; rewrite A1; exact Ps).
         split.
         { split; [apply keeps_weaken; exact K|]. split; [exact N|].
           split; [intros X; exfalso; exact (NE X)|]. split; [intros X; exfalso; exact (NEw X)|].
           intros X; rewrite Pa in X; discriminate. }
         rewrite (is_nil_false _ NEw).
-        rewrite (new_pending_app st st' (remove r (pend st)) news B3 (fun r' => keys_remove_subset r r' (pend st)) Fresh).
-        unfold base_ghost. apply (LInv_response_stay w st st' g r i n T wait' news); try assumption.
-        - cbn. congruence.
-        - lia.
-        - intros r' p Hr. rewrite B4. exact (A8 r' p Hr).
-        - intros n' Hn'. rewrite B6. apply Nat.eqb_neq in Hn' as Hn2. rewrite Hn2. apply Hother; exact Hn'.
-        - rewrite B6, Nat.eqb_refl. reflexivity.
-        - apply NoDup_filter; exact ND0. }
-      destruct Hc as [(-> & Ex)|(F1 & F2 & F3 & F4 & Hc)].
-      * (* the pass raised: nobody in it answered over SOAP *)
-        pose proof (trigger_response_exn _ _ _ _ _ _ _ _ _ Tr Ho Ht) as Nx. rewrite Enow in Nx. specialize (Nx D Ex).
-        rewrite (wait_minus_remove_first i _ ND) in Nx. fold l0 in Nx.
-        assert (Ew : wait' = l0) by (apply filter_not_soap_all; exact Nx).
-        apply StayProof; try assumption; try reflexivity.
-        -- rewrite Ew; exact NE.
-        -- intros n'. rewrite A3. destruct (n' =? n)%nat eqn:E; [|reflexivity].
-           apply Nat.eqb_eq in E; subst n'. rewrite Hl, Ew. reflexivity.
-      * fold wait' in F4, Hc. cbn in F1, F3.
-        destruct Hc as [(Fa & Fb & Fc & Fd)|[(Fa & Fb & Fc & Fd & Fe)|(Fa & Fb)]].
-        -- assert (NEw : wait' <> []).
-           { destruct Fa as [Fa|Fa]; [|exact Fa]. unfold wait'. rewrite (filter_not_soap_all _ _ _ Fa). exact NE. }
-           apply StayProof; try assumption; try (rewrite Fc; exact A5).
-        -- (* the others have all answered over SOAP: the session ends *)
-           cbn in Fb, Fc. rewrite Fa. cbn [is_nil].
-           destruct (frame_remove st st' (t_subj T) Fc) as (K & N).
-           assert (Ab : present (view_of st') (t_subj T) = false) by (apply present_view_false; rewrite Fc; apply lookup_remove_eq).
-           assert (NDa : NoDup (keys (remove r (pend st) ++ news))).
-           { apply NoDup_keys_app; [exact NDr|exact A9|].
-             intros k Hk Hk'. apply In_keys_ex in Hk' as [p Hp]. apply (Fresh k p Hp). exact (keys_remove_subset r k _ Hk). }
-           assert (Hs : forall r' q, In (r', q) news -> p_subj q = t_subj T).
-           { intros r' q Hq. destruct (A7' r' q Hq) as (_ & _ & B3 & _). exact B3. }
-           split; [split; [exact K|split; [exact N|]]|].
-           { split; [intros _; exact Ab|]. split; [intros _ _; exact Ab|reflexivity]. }
-           unfold base_ghost. apply (LInv_response_end w st st' g r i n T); try assumption.
-           ++ cbn. congruence.
-           ++ apply (EndLk (remove r (pend st)) news); [rewrite Fd, A5; reflexivity|reflexivity|exact NDa|exact Hs].
-           ++ rewrite Fd, A5. apply NoDup_keys_filter; exact NDa.
-           ++ intros n' Hn'. rewrite F4. apply Nat.eqb_neq in Hn' as Hn2. rewrite Hn2. apply Hother; exact Hn'.
-           ++ lia.
-        -- cbn in Fb. congruence.
+        rewrite (new_pending_app st st1 olds news A5 Ksub Fresh).
+        unfold base_ghost. apply (LInv_response_stay w st st1 g r i n T wait' news); try assumption.
+        -- cbn. congruence.
+        -- intros n' Hn'. rewrite (A3 n' Hn'). apply Hother; exact Hn'.
+        -- apply NoDup_filter; exact ND0.
+        -- intros a Ha. apply filter_In in Ha as [Ha _]. eapply remove_first_subset; exact Ha.
+        -- intros a Ha Na Fa. apply pass_wait_front; [apply In_remove_first; assumption|exact Fa].
+      * (* the others have all answered over SOAP: the session ends *)
+        pose proof (removed_absent _ _ _ Lg) as Ab.
+        apply local_logout_some in Lg as (L1 & L2 & L3 & L4 & L5 & L6 & L7). rewrite A1 in L2.
+        rewrite Ew. cbn [is_nil].
+        destruct (frame_remove st st' (t_subj T) L2) as (K & N).
+        assert (NDa : NoDup (keys (olds ++ news))).
+        { apply NoDup_keys_app; [exact NDo|exact A9|].
+          intros k Hk Hk'. apply In_keys_ex in Hk' as [p Hp]. apply (Fresh k p Hp). apply Ksub; exact Hk. }
+        assert (Hs : forall r' q, In (r', q) news -> p_subj q = t_subj T).
+        { intros r' q Hq. destruct (A7' r' q Hq) as (_ & _ & B3 & _). exact B3. }
+        split; [split; [exact K|split; [exact N|]]|].
+        { split; [intros _; exact Ab|]. split; [intros _ _; exact Ab|reflexivity]. }
+        destruct (EndLk news) as [Lk1 Lk2]; [rewrite L4, A5; reflexivity|exact NDa|exact Hs|].
+        unfold base_ghost. apply (LInv_response_end w st st' g r i n T); try assumption.
+        -- cbn. congruence.
+        -- rewrite L4, A5. apply NoDup_keys_filter; exact NDa.
+        -- intros n' Hn'. rewrite L5, (A3 n' Hn'). apply Hother; exact Hn'.
+        -- lia.
+        -- congruence.
+      * cbn in Fb. congruence.
 Qed.
 
-Lemma guarded_step w st g o st' ou :
-  LInv w st g -> open_trigger w g (view_of st) o ou = 0%nat -> step w st o = (st', ou) -> GStep w st g o st' ou.
+Lemma all_step w st g o st' ou :
+  KInv st g -> LInv w st g -> step w st o = (st', ou) -> GStep w st g o st' ou.
 Proof.
-  intros I Tr H. destruct o; cbn [step] in H.
+  intros KI I H. destruct o; cbn [step] in H.
   - injection H as <- <-. apply GStep_store; [exact I|reflexivity].
   - destruct k; injection H as <- <-.
     + apply GStep_store; [exact I|reflexivity].
@@ -1784,28 +1915,26 @@ Proof.
     + apply GStep_same; [exact I|exact Logic.I].
 Qed.
 
-Lemma guarded_from : forall h w st g,
-  LInv w st g -> first_trigger_from w g (view_of st) (run_from w st h) = 0%nat ->
+Lemma bookkeeping_from : forall h w st g,
+  KInv st g -> LInv w st g ->
   spec_from cl_pending w g (view_of st) (run_from w st h) /\ spec_from cl_ends w g (view_of st) (run_from w st h).
 Proof.
-  unfold first_trigger_from.
-  induction h as [|o r IH]; intros w st g I Tr; cbn; [split; exact Logic.I|].
-  cbn in Tr. destruct (step w st o) as [st' ou] eqn:S. cbn in Tr |- *.
-  destruct (open_trigger w g (view_of st) o ou) eqn:T0; [|discriminate].
-  destruct (guarded_step _ _ _ _ _ _ I T0 S) as (A & B & C).
-  destruct (IH w st' _ C Tr) as [D E]. split; split; assumption.
+  induction h as [|o r IH]; intros w st g KI I; cbn; [split; exact Logic.I|].
+  destruct (step w st o) as [st' ou] eqn:S. cbn.
+  destruct (all_step _ _ _ _ _ _ KI I S) as (A & B & C).
+  destruct (IH w st' _ (KInv_step _ _ _ _ _ _ KI S) C) as [D E]. split; split; assumption.
 Qed.
 
-Lemma guarded_holds w t0 h :
-  guard w t0 (run w t0 h) -> spec_cl cl_pending w t0 (run w t0 h) /\ spec_cl cl_ends w t0 (run w t0 h).
+Lemma bookkeeping_holds w t0 h :
+  spec_cl cl_pending w t0 (run w t0 h) /\ spec_cl cl_ends w t0 (run w t0 h).
 Proof.
-  unfold guard, first_trigger, spec_cl, run. rewrite <- (view_init t0). apply guarded_from. apply LInv_init.
+  unfold spec_cl, run. rewrite <- (view_init t0). apply bookkeeping_from; [apply KInv_init|apply LInv_init].
 Qed.
 
-Lemma pending_holds w t0 h : guard w t0 (run w t0 h) -> spec_cl cl_pending w t0 (run w t0 h).
-Proof. intros G. exact (proj1 (guarded_holds w t0 h G)). Qed.
-Lemma ends_holds w t0 h : guard w t0 (run w t0 h) -> spec_cl cl_ends w t0 (run w t0 h).
-Proof. intros G. exact (proj2 (guarded_holds w t0 h G)). Qed.
+Lemma pending_holds w t0 h : spec_cl cl_pending w t0 (run w t0 h).
+Proof. exact (proj1 (bookkeeping_holds w t0 h)). Qed.
+Lemma ends_holds w t0 h : spec_cl cl_ends w t0 (run w t0 h).
+Proof. exact (proj2 (bookkeeping_holds w t0 h)). Qed.
 
 (* ================================================================ the boolean monitor IS the stated monitor *)
 Lemma returnable_b_iff know nw timed s cands t :
@@ -2009,7 +2138,7 @@ Proof.
            ++ intros W S. destruct C as [[C|C]|C]; [rewrite W in C; discriminate|rewrite S in C; discriminate|exact C].
            ++ intros X. destruct D as [D|D]; [congruence|exact D].
         -- intros (A & B & C). destruct (C eq_refl) as [C1 C2]. split; [split; assumption|]. split.
-           ++ destruct (is_nil (wait_start w ans (issuers_of vb s))) eqn:N; [|left; left; reflexivity].
+           ++ destruct (is_nil (wait_start w g s ans (issuers_of vb s))) eqn:N; [|left; left; reflexivity].
               destruct (is_sent ou) eqn:S; [|left; right; reflexivity]. right. apply C1; [apply is_nil_iff; exact N|reflexivity].
            ++ destruct (present va s) eqn:Q; [left; reflexivity|right; apply C2; reflexivity].
     + split; [intros [[A B] _]; repeat split; auto; intros X; discriminate|intros (A & B & _); repeat split; auto].
@@ -2024,7 +2153,7 @@ Proof.
         -- intros X. destruct E as [E|E]; [congruence|exact E].
       * intros (A & B & C & D & E). split; [split; assumption|]. split; [split|].
         -- destruct (is_nil (wait_minus i (t_wait T))) eqn:N; [|left; reflexivity]. right. apply C, is_nil_iff; exact N.
-        -- destruct (is_nil (wait_answer w ans i (t_wait T))) eqn:N; [|left; left; reflexivity].
+        -- destruct (is_nil (wait_answer w g (t_subj T) ans i (t_wait T))) eqn:N; [|left; left; reflexivity].
            destruct (is_sent ou) eqn:S; [|left; right; reflexivity]. right. apply D; [apply is_nil_iff; exact N|reflexivity].
         -- destruct (present va (t_subj T)) eqn:Q; [left; reflexivity|right; apply E; reflexivity].
   - split; [intros _; exact I|reflexivity].
@@ -2073,52 +2202,19 @@ Lemma spec_split w t0 tr :
 Proof. apply spec_from_split. Qed.
 
 (* main theorem: every history outside the known finding classes satisfies the whole property *)
-Lemma guarded_spec w t0 h : guard w t0 (run w t0 h) -> spec w t0 (run w t0 h).
+(* main theorem: EVERY history satisfies the whole property *)
+Lemma all_spec w t0 h : spec w t0 (run w t0 h).
 Proof.
-  intros G. apply spec_split. destruct (guarded_holds w t0 h G) as [P E].
-  repeat split; [apply isolation_holds|apply expiry_holds|apply accept_holds|apply after_holds|apply request_holds|exact P|exact E].
+  apply spec_split.
+  repeat split; [apply isolation_holds|apply expiry_holds|apply accept_holds|apply after_holds|apply request_holds
+                |apply pending_holds|apply ends_holds].
 Qed.
 
-(* ================================================================ up to the first trigger *)
-(* The sharper statement: on EVERY history, every step before the first step that falls into an OPEN
-   finding class (4, 5) satisfies all clauses (Corr.cls excuses exactly the steps from that trigger on). *)
-Fixpoint spec_until_from (cl : clause) (w : world) (g : ghost) (vb : view) (tr : trace) : Prop :=
-  match tr with
-  | [] => True
-  | (o, ou, va) :: r =>
-      open_trigger w g vb o ou = 0%nat -> cl w g vb o ou va /\ spec_until_from cl w (ghost_step w g vb o ou va) va r
-  end.
-Definition spec_until (w : world) (t0 : Z) (tr : trace) : Prop := spec_until_from step_ok w (ghost0 t0) empty_view tr.
-
-Lemma until_from : forall h w st g,
-  KInv st g -> LInv w st g -> spec_until_from step_ok w g (view_of st) (run_from w st h).
+(* no finding class is open: the guard of the earlier rounds is vacuous *)
+Lemma guard_always w t0 tr : guard w t0 tr.
 Proof.
-  induction h as [|o r IH]; intros w st g K L; cbn; [exact I|].
-  destruct (step w st o) as [st' ou] eqn:S. cbn. intros T0.
-  destruct (guarded_step _ _ _ _ _ _ L T0 S) as (A & B & C).
-  split.
-  - repeat split.
-    + exact (proj1 (cache_clause w st g o st' ou false K S)).
-    + exact (proj2 (cache_clause w st g o st' ou false K S)).
-    + exact (proj1 (cache_clause w st g o st' ou true K S)).
-    + exact (proj2 (cache_clause w st g o st' ou true K S)).
-    + eapply accept_clause; exact S.
-    + eapply after_clause; exact S.
-    + eapply request_clause; exact S.
-    + exact A.
-    + exact B.
-  - apply IH; [eapply KInv_step; eassumption|exact C].
-Qed.
-
-Lemma until_holds w t0 h : spec_until w t0 (run w t0 h).
-Proof. unfold spec_until, run. rewrite <- (view_init t0). apply until_from; [apply KInv_init|apply LInv_init]. Qed.
-
-Lemma until_guard w : forall tr g vb,
-  spec_until_from step_ok w g vb tr -> first_trigger_from w g vb tr = 0%nat -> spec_from step_ok w g vb tr.
-Proof.
-  unfold first_trigger_from.
-  induction tr as [|[[o ou] va] r IH]; intros g vb H T; cbn in *; [exact I|].
-  destruct (open_trigger w g vb o ou) eqn:E; [|discriminate]. destruct (H eq_refl) as [A B]. split; [exact A|apply IH; assumption].
+  unfold guard, first_trigger, first_trigger_from. generalize (ghost0 t0), empty_view.
+  induction tr as [|[[o ou] va] r IH]; intros g vb; cbn; [reflexivity|]. apply IH.
 Qed.
 
 (* ================================================================ the known finding classes are real (faithful model) *)
@@ -2138,14 +2234,14 @@ Definition h_wrong_party : list op :=
 Definition h_stale : list op :=
   [Login 0 0 2000 1; StartLogout 0 None []; LocalLogout 0; Login 0 0 2000 2; LogoutResponse 0 0 true [];
    GetIdentity 0 [] true].
-(* class 4 (open, residue of 3): three IdPs; IdP 0 answers (1 and 2 are asked again: requests 3, 4), IdP 1
-   answers request 1 (2 is asked again), then IdP 1 also answers its second request 3, which is moot *)
+(* class 4 (fixed by e58d2614): three IdPs; IdP 0 answers (1 and 2 are asked again: requests 3, 4), IdP 1
+   answers request 1 (2 is asked again), then IdP 1 also answers its second request 3, which was moot *)
 Definition h_moot : list op :=
   [Login 0 0 2000 1; Login 0 1 2000 2; Login 0 2 2000 3; StartLogout 0 None [];
    LogoutResponse 0 0 true []; LogoutResponse 1 1 true []; LogoutResponse 3 1 true []].
-(* class 5 (open, residue of 1): IdP 1 answers Success over SOAP in a pass that then raises (the session
-   information of IdP 2 has been reset: AttributeError); its answer is forgotten, so after the front-channel
-   IdPs 0 and 2 have answered, the session still waits for IdP 1 (which now fails) *)
+(* class 5 (fixed by 10d8560b): IdP 1 answers Success over SOAP in a pass that then raises (the session
+   information of IdP 2 has been reset: AttributeError); its answer was forgotten, so after the front-channel
+   IdPs 0 and 2 had answered, the session still waited for IdP 1 (which now fails) *)
 Definition h_forgotten : list op :=
   [Login 0 0 2000 1; Login 0 1 2000 2; Login 0 2 2000 3; Reset 0 2;
    StartLogout 0 None [SA_none; SA_ok; SA_none]; Login 0 2 2000 4;
@@ -2155,55 +2251,55 @@ Definition h_forgotten : list op :=
 Lemma refute w t0 tr : spec_b w t0 tr = false -> ~ spec w t0 tr.
 Proof. intros E H. apply spec_b_iff in H. congruence. Qed.
 
-Lemma moot_refuted : exists w t0 h, first_trigger w t0 (run w t0 h) = 4%nat /\ ~ spec w t0 (run w t0 h).
-Proof. exists w_three, 1000%Z, h_moot. split; [vm_compute; reflexivity|apply refute; vm_compute; reflexivity]. Qed.
-
-Lemma forgotten_refuted : exists w t0 h, first_trigger w t0 (run w t0 h) = 5%nat /\ ~ spec w t0 (run w t0 h).
-Proof. exists w_mixed, 1000%Z, h_forgotten. split; [vm_compute; reflexivity|apply refute; vm_compute; reflexivity]. Qed.
-
-(* the behaviour before each fix violated the property (run_v0 party purge soap: false = that fix reverted) *)
+(* the behaviour before each fix violated the property
+   (run_v0 party purge soap early moot: false = that fix reverted, everything else as now) *)
 Lemma soap_v0_refuted :
-  exists w t0 h, first_any_trigger w t0 (run_v0 true true false w t0 h) = 1%nat /\ ~ spec w t0 (run_v0 true true false w t0 h).
+  exists w t0 h, first_any_trigger w t0 (run_v0 true true false true true w t0 h) = 1%nat
+                 /\ ~ spec w t0 (run_v0 true true false true true w t0 h).
 Proof. exists w_soap, 1000%Z, h_soap. split; [vm_compute; reflexivity|apply refute; vm_compute; reflexivity]. Qed.
 
 Lemma wrong_party_v0_refuted :
-  exists w t0 h, first_any_trigger w t0 (run_v0 false true true w t0 h) = 2%nat /\ ~ spec w t0 (run_v0 false true true w t0 h).
+  exists w t0 h, first_any_trigger w t0 (run_v0 false true true true true w t0 h) = 2%nat
+                 /\ ~ spec w t0 (run_v0 false true true true true w t0 h).
 Proof. exists w_front, 1000%Z, h_wrong_party. split; [vm_compute; reflexivity|apply refute; vm_compute; reflexivity]. Qed.
 
 Lemma stale_v0_refuted :
-  exists w t0 h, first_any_trigger w t0 (run_v0 true false true w t0 h) = 3%nat /\ ~ spec w t0 (run_v0 true false true w t0 h).
+  exists w t0 h, first_any_trigger w t0 (run_v0 true false true true true w t0 h) = 3%nat
+                 /\ ~ spec w t0 (run_v0 true false true true true w t0 h).
 Proof. exists w_front, 1000%Z, h_stale. split; [vm_compute; reflexivity|apply refute; vm_compute; reflexivity]. Qed.
 
+Lemma moot_v0_refuted :
+  exists w t0 h, first_any_trigger w t0 (run_v0 true true true true false w t0 h) = 4%nat
+                 /\ ~ spec w t0 (run_v0 true true true true false w t0 h).
+Proof. exists w_three, 1000%Z, h_moot. split; [vm_compute; reflexivity|apply refute; vm_compute; reflexivity]. Qed.
+
+Lemma forgotten_v0_refuted :
+  exists w t0 h, first_any_trigger w t0 (run_v0 true true true false true w t0 h) = 5%nat
+                 /\ ~ spec w t0 (run_v0 true true true false true w t0 h).
+Proof. exists w_mixed, 1000%Z, h_forgotten. split; [vm_compute; reflexivity|apply refute; vm_compute; reflexivity]. Qed.
+
 Lemma original_v0_refuted :
-  exists w t0 h, ~ spec w t0 (run_v0 false false false w t0 h).
+  exists w t0 h, ~ spec w t0 (run_v0 false false false false false w t0 h).
 Proof. exists w_front, 1000%Z, h_stale. apply refute; vm_compute; reflexivity. Qed.
 
 (* with all fixes the _v0 definitions are the model *)
-Lemma step_v0_fixed w st o : step_v0 true true true w st o = step w st o.
+Lemma step_v0_fixed w st o : step_v0 true true true true true w st o = step w st o.
 Proof. destruct o; reflexivity. Qed.
-Lemma run_v0_fixed w t0 h : run_v0 true true true w t0 h = run w t0 h.
+Lemma run_v0_fixed w t0 h : run_v0 true true true true true w t0 h = run w t0 h.
 Proof.
   unfold run_v0, run. generalize (init t0). induction h as [|o r IH]; intros st; cbn [run_from_v0 run_from]; [reflexivity|].
   rewrite step_v0_fixed. destruct (step w st o) as [st' ou]. rewrite IH. reflexivity.
 Qed.
 
-(* ... and the repaired code satisfies the whole property on the three histories *)
-Example soap_now : spec w_soap 1000 (run w_soap 1000 h_soap).
-Proof. apply guarded_spec. vm_compute. reflexivity. Qed.
-Example wrong_party_now : spec w_front 1000 (run w_front 1000 h_wrong_party).
-Proof. apply guarded_spec. vm_compute. reflexivity. Qed.
-Example stale_now : spec w_front 1000 (run w_front 1000 h_stale).
-Proof. apply guarded_spec. vm_compute. reflexivity. Qed.
-
-(* what goes / went wrong, in the model's own outputs *)
+(* what went wrong and what happens now, in the model's own outputs *)
 Example soap_session_survived_v0 :
-  map (fun x => snd (fst x)) (run_v0 true true false w_soap 1000 h_soap) = [OUnit; OSent [SentSoap 0]; OIdentity [1] []].
+  map (fun x => snd (fst x)) (run_v0 true true false true true w_soap 1000 h_soap) = [OUnit; OSent [SentSoap 0]; OIdentity [1] []].
 Proof. vm_compute. reflexivity. Qed.
 Example soap_session_ends_now :
   map (fun x => snd (fst x)) (run w_soap 1000 h_soap) = [OUnit; OSent [SentSoap 0]; OIdentity [] []].
 Proof. vm_compute. reflexivity. Qed.
 Example stale_answer_ended_new_session_v0 :
-  map (fun x => snd (fst x)) (run_v0 true false true w_front 1000 h_stale)
+  map (fun x => snd (fst x)) (run_v0 true false true true true w_front 1000 h_stale)
   = [OUnit; OSent [SentPending 0 REDIRECT 0]; OBool true; OUnit; ODone; OIdentity [] []].
 Proof. vm_compute. reflexivity. Qed.
 Example stale_answer_unknown_now :
@@ -2211,20 +2307,25 @@ Example stale_answer_unknown_now :
   = [OUnit; OSent [SentPending 0 REDIRECT 0]; OBool true; OUnit; OExn KeyErr; OIdentity [2] []].
 Proof. vm_compute. reflexivity. Qed.
 Example wrong_party_outputs_v0_now :
-  map (fun x => snd (fst x)) (run_v0 false true true w_front 1000 h_wrong_party)
+  map (fun x => snd (fst x)) (run_v0 false true true true true w_front 1000 h_wrong_party)
   = [OUnit; OUnit; OSent [SentPending 0 REDIRECT 0; SentPending 1 POST 1]; OSent [SentPending 0 REDIRECT 2]]
   /\ map (fun x => snd (fst x)) (run w_front 1000 h_wrong_party)
   = [OUnit; OUnit; OSent [SentPending 0 REDIRECT 0; SentPending 1 POST 1]; OExn LogoutErr].
 Proof. split; vm_compute; reflexivity. Qed.
-Example moot_outputs :
-  map (fun x => snd (fst x)) (run w_three 1000 h_moot)
+Example moot_outputs_v0_now :
+  map (fun x => snd (fst x)) (run_v0 true true true true false w_three 1000 h_moot)
   = [OUnit; OUnit; OUnit; OSent [SentPending 0 REDIRECT 0; SentPending 1 REDIRECT 1; SentPending 2 REDIRECT 2];
-     OSent [SentPending 1 REDIRECT 3; SentPending 2 REDIRECT 4]; OSent [SentPending 2 REDIRECT 5]; OExn ValueErr].
-Proof. vm_compute. reflexivity. Qed.
-Example forgotten_outputs :
-  map (fun x => snd (fst x)) (run w_mixed 1000 h_forgotten)
-  = [OUnit; OUnit; OUnit; OUnit; OExn AttrErr; OUnit; OExn LogoutErr; OExn LogoutErr; OIdentity [1; 2; 4] []].
-Proof. vm_compute. reflexivity. Qed.
+     OSent [SentPending 1 REDIRECT 3; SentPending 2 REDIRECT 4]; OSent [SentPending 2 REDIRECT 5]; OExn ValueErr]
+  /\ map (fun x => snd (fst x)) (run w_three 1000 h_moot)
+  = [OUnit; OUnit; OUnit; OSent [SentPending 0 REDIRECT 0; SentPending 1 REDIRECT 1; SentPending 2 REDIRECT 2];
+     OSent [SentPending 1 REDIRECT 3; SentPending 2 REDIRECT 4]; OSent [SentPending 2 REDIRECT 5]; OExn KeyErr].
+Proof. split; vm_compute; reflexivity. Qed.
+Example forgotten_outputs_v0_now :
+  map (fun x => snd (fst x)) (run_v0 true true true false true w_mixed 1000 h_forgotten)
+  = [OUnit; OUnit; OUnit; OUnit; OExn AttrErr; OUnit; OExn LogoutErr; OExn LogoutErr; OIdentity [1; 2; 4] []]
+  /\ map (fun x => snd (fst x)) (run w_mixed 1000 h_forgotten)
+  = [OUnit; OUnit; OUnit; OUnit; OExn AttrErr; OUnit; OSent [SentPending 2 POST 1]; ODone; OIdentity [] []].
+Proof. split; vm_compute; reflexivity. Qed.
 
 (* ================================================================ non-vacuity *)
 (* a complete front-channel logout of subject 0 at two IdPs (subject 1 keeps its session): the guard
@@ -2234,8 +2335,6 @@ Definition h_flow : list op :=
    StartLogout 0 (Some 1500%Z) []; LogoutResponse 0 0 true []; LogoutResponse 1 1 true [];
    GetIdentity 0 [] true; GetIdentity 1 [] true; LogoutRequest 0 1 0 REDIRECT; LogoutRequest 1 1 0 REDIRECT;
    GetIdentity 1 [] true].
-Example flow_guard : guard w_front 1000 (run w_front 1000 h_flow).
-Proof. vm_compute. reflexivity. Qed.
 Example flow_outputs :
   map (fun x => snd (fst x)) (run w_front 1000 h_flow)
   = [OUnit; OUnit; OUnit; OIdentity [1; 2] []; OInfo (Some 2);
@@ -2243,15 +2342,13 @@ Example flow_outputs :
      OIdentity [] []; OIdentity [3] []; OStatus LUnknownPrincipal; OStatus LSuccess; OIdentity [] []].
 Proof. vm_compute. reflexivity. Qed.
 Example flow_spec : spec w_front 1000 (run w_front 1000 h_flow).
-Proof. apply guarded_spec, flow_guard. Qed.
+Proof. apply all_spec. Qed.
 
 (* a mixed logout: IdP 1 answers over SOAP at once, IdP 0 over the front channel; then the session ends *)
 Definition w_mixed2 : world := {| w_pref := [SOAP; REDIRECT; POST]; w_slo := [[REDIRECT]; [SOAP]] |}.
 Definition h_mixed : list op :=
   [Login 0 0 2000 1; Login 0 1 2000 2; StartLogout 0 None [SA_none; SA_ok]; GetIdentity 0 [] true;
    LogoutResponse 0 0 true []; GetIdentity 0 [] true].
-Example mixed_guard : guard w_mixed2 1000 (run w_mixed2 1000 h_mixed).
-Proof. vm_compute. reflexivity. Qed.
 Example mixed_outputs :
   map (fun x => snd (fst x)) (run w_mixed2 1000 h_mixed)
   = [OUnit; OUnit; OSent [SentPending 0 REDIRECT 0; SentSoap 1]; OIdentity [1; 2] []; ODone; OIdentity [] []].
@@ -2261,8 +2358,6 @@ Proof. vm_compute. reflexivity. Qed.
 Definition h_deadline : list op :=
   [Login 0 0 5000 1; Login 0 1 5000 2; StartLogout 0 (Some 1500%Z) []; Tick 501; GetIdentity 0 [] true;
    LogoutResponse 0 0 true []; GetIdentity 0 [] true; StartLogout 0 None []].
-Example deadline_guard : guard w_front 1000 (run w_front 1000 h_deadline).
-Proof. vm_compute. reflexivity. Qed.
 Example deadline_outputs :
   map (fun x => snd (fst x)) (run w_front 1000 h_deadline)
   = [OUnit; OUnit; OSent [SentPending 0 REDIRECT 0; SentPending 1 POST 1]; OUnit; OIdentity [1; 2] [];
